@@ -1,6 +1,6 @@
 /- GENERATED on every run by checks/c27.py from the working tree (harness `c27 dump`: pystd declarations parsed by erg_parser),
    the installed interpreters 3.7-3.13 (py/c27_dump_attrs.py) and the bundled typeshed stubs (py/c27_typeshed.py). Never edit.
-   Per module: names are interned to Nat ids over (known ∪ declared) in sorted order (full tables: evidence/C27.intern.json);
+   Per module: names are interned to Nat ids over (known ∪ declared) in sorted order (full tables: evidence/aux/C27.intern.json);
    `decls` = ids of the Python names of the top-level public declarations (sorted, distinct), `known` = bitset of the ids that
    are attributes of the module in some interpreter or typeshed branch. -/
 namespace ErgVerif.Gen.C27
@@ -9,12 +9,12 @@ namespace ErgVerif.Gen.C27
 /- module 1 = abc: 0=ABC 1=ABCMeta 21=abstractclassmethod 22=abstractmethod 24=abstractstaticmethod -/
 /- module 2 = argparse: 3=ArgumentParser 33=_StoreAction -/
 /- module 3 = array: 13=array 14=typecodes -/
-/- module 4 = ast: 0=AST 1=Add 2=And 3=AnnAssign 4=Assert 5=Assign 6=AsyncFor 7=AsyncFunctionDef 8=AsyncWith 9=Attribute 10=AugAssign 14=BinOp 15=BitAnd 16=BitOr 17=BitXor 18=BoolOp 19=Break 21=Call 22=ClassDef 23=Compare 24=Constant 25=Continue 26=Del 27=Delete 28=Dict 29=DictComp 30=Div 32=Eq 33=ExceptHandler 37=FloorDiv 38=For 39=FormattedValue 40=FunctionDef 42=GeneratorExp 43=Global 44=Gt 45=GtE 46=If 47=IfExp 48=Import 49=ImportFrom 50=In 55=Invert 56=Is 57=IsNot 58=JoinedStr 59=LShift 60=Lambda 61=List 62=ListComp 63=Load 64=Lt 65=LtE 66=MatMult 67=Match 68=MatchAs 69=MatchClass 70=MatchMapping 71=MatchOr 72=MatchSequence 73=MatchSingleton 74=MatchStar 75=MatchValue 76=Mod 77=Module 78=Mult 79=Name 81=NamedExpr 82=NodeTransformer 83=NodeVisitor 84=Nonlocal 85=Not 86=NotEq 87=NotIn 89=Or 91=ParamSpec 92=Pass 93=Pow 94=PyCF_ALLOW_TOP_LEVEL_AWAIT 95=PyCF_ONLY_AST 96=PyCF_OPTIMIZED_AST 97=PyCF_TYPE_COMMENTS 98=RShift 99=Raise 100=Return 101=Set 102=SetComp 103=Slice 104=Starred 105=Store 107=Sub 108=Subscript 111=Try 112=TryStar 113=Tuple 114=TypeAlias 115=TypeIgnore 116=TypeVar 117=TypeVarTuple 118=UAdd 119=USub 120=UnaryOp 121=While 122=With 165=alias 166=arg 167=arguments 169=boolop 170=cmpop 172=comprehension 175=dump 177=expr 178=expr_context 180=get_docstring 185=keyword 186=literal_eval 188=match_case 191=operator 192=parse 193=pattern 196=stmt 199=type_param 200=unaryop 201=unparse 203=withitem -/
-/- module 5 = asyncio: 2=AbstractEventLoop 3=AbstractEventLoopPolicy 4=AbstractServer 6=BaseEventLoop 25=Handle 29=LifoQueue 34=PriorityQueue 37=Queue 38=QueueEmpty 39=QueueFull 42=Runner 47=Server 53=Task 58=TimerHandle 100=current_task 110=gather 116=iscoroutine 117=iscoroutinefunction 129=run 137=sleep 151=to_thread -/
+/- module 4 = ast: 0=AST 1=Add 2=And 3=AnnAssign 4=Assert 5=Assign 6=AsyncFor 7=AsyncFunctionDef 8=AsyncWith 9=Attribute 10=AugAssign 14=BinOp 15=BitAnd 16=BitOr 17=BitXor 18=BoolOp 19=Break 21=Call 22=ClassDef 23=Compare 24=Constant 25=Continue 26=Del 27=Delete 28=Dict 29=DictComp 30=Div 32=Eq 33=ExceptHandler 37=FloorDiv 38=For 39=FormattedValue 40=FunctionDef 42=GeneratorExp 43=Global 44=Gt 45=GtE 46=If 47=IfExp 48=Import 49=ImportFrom 50=In 54=Invert 55=Is 56=IsNot 57=JoinedStr 58=LShift 59=Lambda 60=List 61=ListComp 62=Load 63=Lt 64=LtE 65=MatMult 66=Match 67=MatchAs 68=MatchClass 69=MatchMapping 70=MatchOr 71=MatchSequence 72=MatchSingleton 73=MatchStar 74=MatchValue 75=Mod 76=Module 77=Mult 78=Name 80=NamedExpr 81=NodeTransformer 82=NodeVisitor 83=Nonlocal 84=Not 85=NotEq 86=NotIn 88=Or 90=ParamSpec 91=Pass 92=Pow 93=PyCF_ALLOW_TOP_LEVEL_AWAIT 94=PyCF_ONLY_AST 95=PyCF_OPTIMIZED_AST 96=PyCF_TYPE_COMMENTS 97=RShift 98=Raise 99=Return 100=Set 101=SetComp 102=Slice 103=Starred 104=Store 106=Sub 107=Subscript 109=Try 110=TryStar 111=Tuple 112=TypeAlias 113=TypeIgnore 114=TypeVar 115=TypeVarTuple 116=UAdd 117=USub 118=UnaryOp 119=While 120=With 163=alias 164=arg 165=arguments 167=boolop 168=cmpop 169=comprehension 172=dump 174=expr 175=expr_context 177=get_docstring 182=keyword 183=literal_eval 185=match_case 188=operator 189=parse 190=pattern 193=stmt 196=type_param 197=unaryop 198=unparse 200=withitem -/
+/- module 5 = asyncio: 2=AbstractEventLoop 3=AbstractEventLoopPolicy 4=AbstractServer 6=BaseEventLoop 23=Handle 27=LifoQueue 32=PriorityQueue 35=Queue 36=QueueEmpty 37=QueueFull 40=Runner 45=Server 51=Task 56=TimerHandle 94=current_task 101=gather 107=iscoroutine 108=iscoroutinefunction 119=run 127=sleep 141=to_thread -/
 /- module 6 = asyncio.base_events: 0=BaseEventLoop 2=Server -/
 /- module 7 = asyncio.coroutines: 26=iscoroutine 27=iscoroutinefunction -/
 /- module 8 = asyncio.events: 0=AbstractEventLoop 1=AbstractEventLoopPolicy 2=AbstractServer 4=Handle 6=TimerHandle -/
-/- module 9 = asyncio.futures: 1=Future 36=isfuture -/
+/- module 9 = asyncio.futures: 1=Future 34=isfuture -/
 /- module 10 = asyncio.queues: 1=LifoQueue 2=PriorityQueue 3=Queue 4=QueueEmpty 5=QueueFull -/
 /- module 11 = asyncio.runners: 0=Runner 20=run -/
 /- module 12 = asyncio.tasks: 4=Task 82=current_task 89=gather 96=sleep -/
@@ -22,9 +22,9 @@ namespace ErgVerif.Gen.C27
 /- module 14 = atexit: 10=register 11=unregister -/
 /- module 15 = base64: 39=b16decode 40=b16encode 41=b32decode 42=b32encode 45=b64decode 46=b64encode -/
 /- module 16 = bdb: 0=Bdb 2=Breakpoint 26=set_trace -/
-/- module 17 = binascii: 26=a2b_uu 37=hexlify 40=unhexlify -/
+/- module 17 = binascii: 13=a2b_uu 21=hexlify 24=unhexlify -/
 /- module 18 = bisect: 8=bisect 9=bisect_left 10=bisect_right -/
-/- module 19 = builtins: 136=abs 138=all 140=any 141=ascii 155=dict 183=list 192=open 195=print 203=set -/
+/- module 19 = builtins: 134=abs 136=all 138=any 139=ascii 153=dict 180=list 189=open 192=print 199=set -/
 /- module 20 = bz2: 2=BZ2File 29=open -/
 /- module 21 = calendar: 2=Calendar 9=HTMLCalendar 17=LocaleHTMLCalendar 18=LocaleTextCalendar 30=TextCalendar 54=calendar 68=month -/
 /- module 22 = cmath:  -/
@@ -40,13 +40,13 @@ namespace ErgVerif.Gen.C27
 /- module 32 = contextlib: 5=ExitStack 48=closing 49=contextmanager -/
 /- module 33 = copy: 0=Error 24=copy 25=deepcopy -/
 /- module 34 = csv: 0=Dialect 1=DictReader 2=DictWriter 5=QUOTE_ALL 6=QUOTE_MINIMAL 7=QUOTE_NONE 8=QUOTE_NONNUMERIC 9=QUOTE_NOTNULL 10=QUOTE_STRINGS 11=Sniffer 25=excel 31=reader 34=unix_dialect 36=writer -/
-/- module 35 = ctypes: 0=ARRAY 1=ArgumentError 2=Array 5=CDLL 19=OleDLL 22=PyDLL 27=Structure 30=WinDLL 34=_CData 37=_CFuncPtr 55=_Pointer 57=_SimpleCData 88=addressof 89=alignment 90=byref 91=c_bool 93=c_byte 94=c_char 95=c_char_p 96=c_double 98=c_float 100=c_int 101=c_int16 102=c_int32 103=c_int64 104=c_int8 105=c_long 106=c_longdouble 108=c_longlong 109=c_short 110=c_size_t 111=c_ssize_t 112=c_time_t 113=c_ubyte 114=c_uint 115=c_uint16 116=c_uint32 117=c_uint64 118=c_uint8 119=c_ulong 120=c_ulonglong 121=c_ushort 122=c_void_p 124=c_wchar 125=c_wchar_p 126=cast 128=create_string_buffer 129=create_unicode_buffer 130=get_errno 131=get_last_error 133=memmove 135=memset 141=resize 142=set_errno 143=set_last_error 144=sizeof 145=string_at 149=wstring_at -/
+/- module 35 = ctypes: 0=ARRAY 1=ArgumentError 2=Array 5=CDLL 16=OleDLL 19=PyDLL 24=Structure 27=WinDLL 31=_CData 34=_CFuncPtr 52=_Pointer 54=_SimpleCData 85=addressof 86=alignment 87=byref 88=c_bool 90=c_byte 91=c_char 92=c_char_p 93=c_double 94=c_float 95=c_int 96=c_int16 97=c_int32 98=c_int64 99=c_int8 100=c_long 101=c_longdouble 102=c_longlong 103=c_short 104=c_size_t 105=c_ssize_t 106=c_time_t 107=c_ubyte 108=c_uint 109=c_uint16 110=c_uint32 111=c_uint64 112=c_uint8 113=c_ulong 114=c_ulonglong 115=c_ushort 116=c_void_p 118=c_wchar 119=c_wchar_p 120=cast 122=create_string_buffer 123=create_unicode_buffer 124=get_errno 125=get_last_error 127=memmove 128=memset 134=resize 135=set_errno 136=set_last_error 137=sizeof 138=string_at 142=wstring_at -/
 /- module 36 = ctypes.macholib:  -/
-/- module 37 = ctypes.util: 14=find_library -/
+/- module 37 = ctypes.util: 13=find_library -/
 /- module 38 = ctypes.wintypes:  -/
 /- module 39 = dataclasses: 0=Field 5=KW_ONLY 6=MISSING 22=_KW_ONLY_TYPE 23=_MISSING_TYPE 76=dataclass 77=field 81=is_dataclass -/
 /- module 40 = datetime: 0=MAXYEAR 1=MINYEAR 2=UTC 16=date 17=datetime 20=time 21=timedelta 22=timezone 23=tzinfo -/
-/- module 41 = decimal: 0=BasicContext 2=Context 4=Decimal 7=DefaultContext 11=ExtendedContext 52=getcontext 53=localcontext 54=setcontext -/
+/- module 41 = decimal: 0=BasicContext 2=Context 4=Decimal 7=DefaultContext 11=ExtendedContext 49=getcontext 50=localcontext 51=setcontext -/
 /- module 42 = difflib: 0=Differ 2=HtmlDiff 3=IS_CHARACTER_JUNK 4=IS_LINE_JUNK 6=SequenceMatcher 31=context_diff 32=diff_bytes 33=get_close_matches 34=ndiff 35=restore 36=unified_diff -/
 /- module 43 = dis: 2=Bytecode 16=Instruction 25=Positions 86=cmp_op 87=code_info 90=dis 92=disco 98=hasarg 99=hascompare 100=hasconst 101=hasexc 102=hasfree 105=hasjump 106=haslocal 107=hasname 113=opmap 114=opname 117=show_code -/
 /- module 44 = doctest: 33=TestResults 84=testfile 85=testmod -/
@@ -59,18 +59,18 @@ namespace ErgVerif.Gen.C27
 /- module 51 = email.parser: 1=BytesHeaderParser 2=BytesParser 4=HeaderParser 5=Parser -/
 /- module 52 = email.policy: 2=EmailPolicy 3=HTTP 6=SMTP 7=SMTPUTF8 20=default 24=strict -/
 /- module 53 = enum: 4=Enum 8=EnumType 9=Flag 11=IntEnum 12=IntFlag 17=ReprEnum 19=StrEnum 60=auto -/
-/- module 54 = errno: 0=E2BIG 1=EACCES 2=EADDRINUSE 3=EADDRNOTAVAIL 4=EADV 5=EAFNOSUPPORT 6=EAGAIN 7=EALREADY 10=EBADE 12=EBADF 13=EBADFD 15=EBADMSG 16=EBADR 18=EBADRQC 19=EBADSLT 20=EBFONT 21=EBUSY 22=ECANCELED 23=ECHILD 24=ECHRNG 25=ECOMM 26=ECONNABORTED 27=ECONNREFUSED 28=ECONNRESET 29=EDEADLK 30=EDEADLOCK 31=EDESTADDRREQ 33=EDOM 34=EDOTDOT 35=EDQUOT 36=EEXIST 37=EFAULT 38=EFBIG 40=EHOSTDOWN 41=EHOSTUNREACH 43=EIDRM 44=EILSEQ 45=EINPROGRESS 46=EINTR 47=EINVAL 48=EIO 49=EISCONN 50=EISDIR 51=EISNAM 55=EL2HLT 56=EL2NSYNC 57=EL3HLT 58=EL3RST 59=ELIBACC 60=ELIBBAD 61=ELIBEXEC 62=ELIBMAX 63=ELIBSCN 64=ELNRNG 66=ELOOP 68=EMFILE 69=EMLINK 70=EMSGSIZE 71=EMULTIHOP 72=ENAMETOOLONG 73=ENAVAIL 75=ENETDOWN 76=ENETRESET 77=ENETUNREACH 78=ENFILE 79=ENOANO 81=ENOBUFS 82=ENOCSI 83=ENODATA 84=ENODEV 85=ENOENT 86=ENOEXEC 88=ENOLCK 89=ENOLINK 91=ENOMEM 92=ENOMSG 93=ENONET 94=ENOPKG 96=ENOPROTOOPT 97=ENOSPC 98=ENOSR 99=ENOSTR 100=ENOSYS 102=ENOTBLK 103=ENOTCAPABLE 104=ENOTCONN 105=ENOTDIR 106=ENOTEMPTY 107=ENOTNAM 108=ENOTRECOVERABLE 109=ENOTSOCK 110=ENOTSUP 111=ENOTTY 112=ENOTUNIQ 113=ENXIO 114=EOPNOTSUPP 115=EOVERFLOW 116=EOWNERDEAD 117=EPERM 118=EPFNOSUPPORT 119=EPIPE 124=EPROTO 125=EPROTONOSUPPORT 126=EPROTOTYPE 128=EQFULL 129=ERANGE 130=EREMCHG 131=EREMOTE 132=EREMOTEIO 133=ERESTART 135=EROFS 138=ESHUTDOWN 139=ESOCKTNOSUPPORT 140=ESPIPE 141=ESRCH 142=ESRMNT 143=ESTALE 144=ESTRPIPE 145=ETIME 146=ETIMEDOUT 147=ETOOMANYREFS 148=ETXTBSY 149=EUCLEAN 150=EUNATCH 151=EUSERS 152=EWOULDBLOCK 153=EXDEV 154=EXFULL 208=errorcode -/
+/- module 54 = errno: 0=E2BIG 1=EACCES 2=EADDRINUSE 3=EADDRNOTAVAIL 4=EADV 5=EAFNOSUPPORT 6=EAGAIN 7=EALREADY 10=EBADE 12=EBADF 13=EBADFD 15=EBADMSG 16=EBADR 18=EBADRQC 19=EBADSLT 20=EBFONT 21=EBUSY 22=ECANCELED 23=ECHILD 24=ECHRNG 25=ECOMM 26=ECONNABORTED 27=ECONNREFUSED 28=ECONNRESET 29=EDEADLK 30=EDEADLOCK 31=EDESTADDRREQ 33=EDOM 34=EDOTDOT 35=EDQUOT 36=EEXIST 37=EFAULT 38=EFBIG 40=EHOSTDOWN 41=EHOSTUNREACH 42=EIDRM 43=EILSEQ 44=EINPROGRESS 45=EINTR 46=EINVAL 47=EIO 48=EISCONN 49=EISDIR 50=EISNAM 54=EL2HLT 55=EL2NSYNC 56=EL3HLT 57=EL3RST 58=ELIBACC 59=ELIBBAD 60=ELIBEXEC 61=ELIBMAX 62=ELIBSCN 63=ELNRNG 65=ELOOP 67=EMFILE 68=EMLINK 69=EMSGSIZE 70=EMULTIHOP 71=ENAMETOOLONG 72=ENAVAIL 74=ENETDOWN 75=ENETRESET 76=ENETUNREACH 77=ENFILE 78=ENOANO 80=ENOBUFS 81=ENOCSI 82=ENODATA 83=ENODEV 84=ENOENT 85=ENOEXEC 87=ENOLCK 88=ENOLINK 90=ENOMEM 91=ENOMSG 92=ENONET 93=ENOPKG 95=ENOPROTOOPT 96=ENOSPC 97=ENOSR 98=ENOSTR 99=ENOSYS 101=ENOTBLK 102=ENOTCAPABLE 103=ENOTCONN 104=ENOTDIR 105=ENOTEMPTY 106=ENOTNAM 107=ENOTRECOVERABLE 108=ENOTSOCK 109=ENOTSUP 110=ENOTTY 111=ENOTUNIQ 112=ENXIO 113=EOPNOTSUPP 114=EOVERFLOW 115=EOWNERDEAD 116=EPERM 117=EPFNOSUPPORT 118=EPIPE 123=EPROTO 124=EPROTONOSUPPORT 125=EPROTOTYPE 127=EQFULL 128=ERANGE 129=EREMCHG 130=EREMOTE 131=EREMOTEIO 132=ERESTART 134=EROFS 137=ESHUTDOWN 138=ESOCKTNOSUPPORT 139=ESPIPE 140=ESRCH 141=ESRMNT 142=ESTALE 143=ESTRPIPE 144=ETIME 145=ETIMEDOUT 146=ETOOMANYREFS 147=ETXTBSY 148=EUCLEAN 149=EUNATCH 150=EUSERS 151=EWOULDBLOCK 152=EXDEV 153=EXFULL 207=errorcode -/
 /- module 55 = filecmp: 17=clear_cache 18=cmp 19=cmpfiles 21=dircmp -/
 /- module 56 = fileinput: 0=FileInput 15=close 16=filelineno 17=filename 18=fileno 19=hook_compressed 20=hook_encoded 21=input 23=isfirstline 24=isstdin 25=lineno 26=nextfile -/
-/- module 57 = fnmatch: 13=filter 15=fnmatch 16=fnmatchcase 21=translate -/
+/- module 57 = fnmatch: 13=filter 14=fnmatch 15=fnmatchcase 20=translate -/
 /- module 58 = fractions: 1=Fraction -/
 /- module 59 = ftplib: 3=FTP 5=FTP_TLS 21=all_errors 22=error_perm 23=error_proto 24=error_reply 25=error_temp -/
-/- module 60 = functools: 53=cache 54=cached_property 55=cmp_to_key 57=lru_cache 59=partial 60=partialmethod 62=reduce 63=singledispatch 64=singledispatchmethod 65=total_ordering 66=update_wrapper 67=wraps -/
+/- module 60 = functools: 51=cache 52=cached_property 53=cmp_to_key 55=lru_cache 57=partial 58=partialmethod 60=reduce 61=singledispatch 62=singledispatchmethod 63=total_ordering 64=update_wrapper 65=wraps -/
 /- module 61 = glob: 17=_iglob 29=escape 32=glob 36=iglob -/
 /- module 62 = graphlib: 0=CycleError 2=TopologicalSorter -/
 /- module 63 = gzip: 0=BadGzipFile 6=GzipFile 37=compress 38=decompress 41=open -/
 /- module 64 = hashlib: 0=HASH 1=HASHXOF 18=algorithms_available 19=algorithms_guaranteed 20=blake2b 22=file_digest 23=md5 24=new 27=sha1 28=sha224 29=sha256 30=sha384 31=sha3_224 32=sha3_256 33=sha3_384 34=sha3_512 35=sha512 36=shake_128 37=shake_256 -/
-/- module 65 = heapq: 18=heapify 20=heappop 22=heappush 24=heappushpop -/
+/- module 65 = heapq: 18=heapify 19=heappop 20=heappush 21=heappushpop -/
 /- module 66 = hmac: 0=HMAC 15=compare_digest 16=digest 18=new -/
 /- module 67 = html: 16=entities 17=escape 18=parser 19=unescape -/
 /- module 68 = html.entities: 9=codepoint2name 10=entitydefs 11=html5 12=name2codepoint -/
@@ -79,14 +79,14 @@ namespace ErgVerif.Gen.C27
 /- module 71 = http.client: 4=BadStatusLine 9=CannotSendHeader 10=CannotSendRequest 18=HTTPConnection 19=HTTPException 20=HTTPMessage 21=HTTPResponse 22=HTTPSConnection 23=HTTPS_PORT 24=HTTP_PORT 30=ImproperConnectionState 31=IncompleteRead 32=InvalidURL 36=LineTooLong 51=NotConnected 67=RemoteDisconnected 68=ResponseNotReady 83=UnimplementedFileMode 84=UnknownProtocol 85=UnknownTransferEncoding 119=http 123=responses -/
 /- module 72 = http.cookiejar: 1=Cookie 2=CookieJar 3=CookiePolicy 6=DefaultCookiePolicy 9=FileCookieJar 22=LoadError -/
 /- module 73 = http.cookies: 0=BaseCookie 1=CookieError 2=Morsel 3=SimpleCookie -/
-/- module 74 = http.server: 0=BaseHTTPRequestHandler 1=CGIHTTPRequestHandler 5=HTTPServer 7=SimpleHTTPRequestHandler 9=ThreadingHTTPServer -/
+/- module 74 = http.server: 0=BaseHTTPRequestHandler 1=CGIHTTPRequestHandler 4=HTTPServer 6=SimpleHTTPRequestHandler 7=ThreadingHTTPServer -/
 /- module 75 = importlib: 6=__import__ 22=import_module 24=machinery 27=reload 32=util -/
 /- module 76 = importlib.machinery: 8=ModuleSpec -/
-/- module 77 = importlib.metadata: 6=Distribution 7=DistributionFinder 8=EntryPoint 9=EntryPoints 10=FastPath 15=Lookup 22=PackageMetadata 23=PackageNotFoundError 24=PackagePath 26=PathDistribution 27=Prepared 28=Sectioned 68=distribution 69=distributions 71=entry_points 72=files 79=metadata 83=packages_distributions 88=requires 95=version -/
+/- module 77 = importlib.metadata: 6=Distribution 7=DistributionFinder 8=EntryPoint 9=EntryPoints 10=FastPath 15=Lookup 21=PackageMetadata 22=PackageNotFoundError 23=PackagePath 25=PathDistribution 26=Prepared 27=Sectioned 67=distribution 68=distributions 70=entry_points 71=files 78=metadata 82=packages_distributions 87=requires 94=version -/
 /- module 78 = importlib.metadata.diagnose: 9=inspect 10=run -/
-/- module 79 = importlib.util: 2=MAGIC_NUMBER 25=find_spec -/
-/- module 80 = inspect: 30=FrameInfo 37=Parameter 38=Signature 40=Traceback 125=currentframe 146=getcomments 149=getdoc 150=getfile 157=getmembers 159=getmodule 168=isabstract 169=isasyncgen 170=isasyncgenfunction 171=isawaitable 172=isbuiltin 173=isclass 174=iscode 175=iscoroutine 176=iscoroutinefunction 177=isdatadescriptor 178=isframe 179=isfunction 180=isgenerator 181=isgeneratorfunction 182=isgetsetdescriptor 184=ismemberdescriptor 185=ismethod 186=ismethoddescriptor 187=ismethodwrapper 188=ismodule 190=isroutine 191=istraceback 202=signature -/
-/- module 81 = io: 0=BlockingIOError 1=BufferedIOBase 2=BufferedRWPair 3=BufferedRandom 4=BufferedReader 5=BufferedWriter 6=BytesIO 7=DEFAULT_BUFFER_SIZE 8=FileIO 9=IOBase 12=RawIOBase 17=StringIO 18=TextIOBase 19=TextIOWrapper 20=UnsupportedOperation 38=open 39=open_code 40=text_encoding -/
+/- module 79 = importlib.util: 2=MAGIC_NUMBER 24=find_spec -/
+/- module 80 = inspect: 28=FrameInfo 35=Parameter 36=Signature 38=Traceback 123=currentframe 144=getcomments 147=getdoc 148=getfile 155=getmembers 157=getmodule 166=isabstract 167=isasyncgen 168=isasyncgenfunction 169=isawaitable 170=isbuiltin 171=isclass 172=iscode 173=iscoroutine 174=iscoroutinefunction 175=isdatadescriptor 176=isframe 177=isfunction 178=isgenerator 179=isgeneratorfunction 180=isgetsetdescriptor 182=ismemberdescriptor 183=ismethod 184=ismethoddescriptor 185=ismethodwrapper 186=ismodule 187=isroutine 188=istraceback 199=signature -/
+/- module 81 = io: 0=BlockingIOError 1=BufferedIOBase 2=BufferedRWPair 3=BufferedRandom 4=BufferedReader 5=BufferedWriter 6=BytesIO 7=DEFAULT_BUFFER_SIZE 8=FileIO 9=IOBase 12=RawIOBase 16=StringIO 17=TextIOBase 18=TextIOWrapper 19=UnsupportedOperation 36=open 37=open_code 38=text_encoding -/
 /- module 82 = ipaddress: 0=AddressValueError 3=IPv4Address 4=IPv4Interface 5=IPv4Network 6=IPv6Address 7=IPv6Interface 8=IPv6Network 9=NetmaskValueError 11=_BaseAddress 13=_BaseNetwork 14=_BaseV4 15=_BaseV6 16=_IPAddressBase 36=collapse_addresses 39=ip_address 42=summarize_address_range 43=v4_int_to_packed 44=v6_int_to_packed -/
 /- module 83 = itertools: 25=accumulate 27=chain 28=combinations 29=combinations_with_replacement 30=compress 31=count 32=cycle 33=dropwhile 34=filterfalse 35=groupby 36=islice 37=pairwise 38=permutations 39=product 40=repeat 42=takewhile 43=tee 44=zip_longest -/
 /- module 84 = json: 0=JSONDecodeError 1=JSONDecoder 2=JSONEncoder 20=dump 21=dumps 23=load 24=loads -/
@@ -97,43 +97,43 @@ namespace ErgVerif.Gen.C27
 /- module 89 = logging.handlers: 0=BaseRotatingHandler 1=BufferingHandler 2=DEFAULT_HTTP_LOGGING_PORT 3=DEFAULT_SOAP_LOGGING_PORT 4=DEFAULT_TCP_LOGGING_PORT 5=DEFAULT_UDP_LOGGING_PORT 6=DatagramHandler 7=HTTPHandler 8=MemoryHandler 9=NTEventLogHandler 10=QueueHandler 11=QueueListener 12=RotatingFileHandler 13=SMTPHandler 17=SYSLOG_TCP_PORT 18=SYSLOG_UDP_PORT 19=SocketHandler 20=SysLogHandler 21=TimedRotatingFileHandler 22=WatchedFileHandler -/
 /- module 90 = lzma: 0=CHECK_CRC32 1=CHECK_CRC64 2=CHECK_ID_MAX 3=CHECK_NONE 4=CHECK_SHA256 5=CHECK_UNKNOWN 6=FILTER_ARM 7=FILTER_ARMTHUMB 8=FILTER_DELTA 9=FILTER_IA64 10=FILTER_LZMA1 11=FILTER_LZMA2 12=FILTER_POWERPC 13=FILTER_SPARC 14=FILTER_X86 15=FORMAT_ALONE 16=FORMAT_AUTO 17=FORMAT_RAW 18=FORMAT_XZ 19=LZMACompressor 20=LZMADecompressor 21=LZMAError 22=LZMAFile 23=MF_BT2 24=MF_BT3 25=MF_BT4 26=MF_HC3 27=MF_HC4 28=MODE_FAST 29=MODE_NORMAL 30=PRESET_DEFAULT 31=PRESET_EXTREME 51=compress 52=decompress 54=is_check_supported 55=open -/
 /- module 91 = marshal: 6=dump 7=dumps 8=load 9=loads 10=version -/
-/- module 92 = math: 19=acos 20=acosh 21=asin 22=asinh 23=atan 25=atanh 27=ceil 28=comb 29=copysign 30=cos 31=cosh 34=e 37=exp 40=fabs 41=factorial 42=floor 46=fmod 47=frexp 48=fsum 54=isclose 55=isfinite 56=isinf 57=isnan 59=isqrt 64=log 65=log10 67=log2 71=perm 72=pi 74=prod 78=sin 79=sinh 80=sqrt 82=tan 83=tanh 84=tau 85=trunc -/
-/- module 93 = ntpath: 18=abspath 20=basename 21=commonpath 22=commonprefix 26=dirname 27=exists 28=expanduser 29=expandvars 32=getatime 33=getctime 34=getmtime 35=getsize 36=isabs 38=isdir 39=isfile 41=islink 42=ismount 44=join 45=lexists 46=normcase 47=normpath 51=realpath 52=relpath 53=samefile 54=sameopenfile 57=split 58=splitdrive 59=splitext 62=supports_unicode_filenames -/
+/- module 92 = math: 19=acos 20=acosh 21=asin 22=asinh 23=atan 25=atanh 27=ceil 28=comb 29=copysign 30=cos 31=cosh 34=e 37=exp 40=fabs 41=factorial 42=floor 44=fmod 45=frexp 46=fsum 52=isclose 53=isfinite 54=isinf 55=isnan 56=isqrt 60=log 61=log10 63=log2 67=perm 68=pi 70=prod 73=sin 74=sinh 75=sqrt 77=tan 78=tanh 79=tau 80=trunc -/
+/- module 93 = ntpath: 17=abspath 19=basename 20=commonpath 21=commonprefix 25=dirname 26=exists 27=expanduser 28=expandvars 31=getatime 32=getctime 33=getmtime 34=getsize 35=isabs 37=isdir 38=isfile 40=islink 41=ismount 43=join 44=lexists 45=normcase 46=normpath 50=realpath 51=relpath 52=samefile 53=sameopenfile 56=split 57=splitdrive 58=splitext 61=supports_unicode_filenames -/
 /- module 94 = numbers: 1=Complex 2=Integral 3=Number 4=Rational 5=Real -/
-/- module 95 = operator: 5=__abs__ 6=__add__ 8=__and__ 11=__call__ 16=__eq__ 19=__ge__ 21=__gt__ 30=__index__ 32=__invert__ 39=__le__ 41=__lshift__ 42=__lt__ 44=__mod__ 45=__mul__ 47=__ne__ 48=__neg__ 49=__not__ 50=__or__ 52=__pos__ 53=__pow__ 54=__rshift__ 57=__sub__ 58=__truediv__ 59=__xor__ 61=abs 63=and_ 64=attrgetter 65=call 70=eq 72=ge 74=gt 83=index 85=inv 86=invert 90=is_ 92=is_not 95=itemgetter 98=le 100=lshift 101=lt 104=mod 105=mul 106=ne 107=neg 108=not_ 109=or_ 110=pos 111=pow 112=rshift 114=sub 115=truediv 116=truth 117=xor -/
-/- module 96 = os: 24=DirEntry 25=EFD_CLOEXEC 26=EFD_NONBLOCK 27=EFD_SEMAPHORE 28=EX_CANTCREAT 29=EX_CONFIG 30=EX_DATAERR 31=EX_IOERR 32=EX_NOHOST 33=EX_NOINPUT 34=EX_NOPERM 35=EX_NOTFOUND 36=EX_NOUSER 37=EX_OK 38=EX_OSERR 39=EX_OSFILE 40=EX_PROTOCOL 41=EX_SOFTWARE 42=EX_TEMPFAIL 43=EX_UNAVAILABLE 44=EX_USAGE 45=F_LOCK 47=F_TEST 48=F_TLOCK 49=F_ULOCK 53=MFD_ALLOW_SEALING 54=MFD_CLOEXEC 55=MFD_HUGETLB 56=MFD_HUGE_16GB 57=MFD_HUGE_16MB 58=MFD_HUGE_1GB 59=MFD_HUGE_1MB 60=MFD_HUGE_256MB 61=MFD_HUGE_2GB 62=MFD_HUGE_2MB 63=MFD_HUGE_32MB 64=MFD_HUGE_512KB 65=MFD_HUGE_512MB 66=MFD_HUGE_64KB 67=MFD_HUGE_8MB 68=MFD_HUGE_MASK 69=MFD_HUGE_SHIFT 74=OSError 76=O_APPEND 77=O_ASYNC 78=O_BINARY 79=O_CLOEXEC 80=O_CREAT 81=O_DIRECT 82=O_DIRECTORY 83=O_DSYNC 84=O_EVTONLY 85=O_EXCL 87=O_EXLOCK 88=O_FSYNC 90=O_NDELAY 91=O_NOATIME 92=O_NOCTTY 93=O_NOFOLLOW 94=O_NOFOLLOW_ANY 95=O_NOINHERIT 96=O_NONBLOCK 97=O_PATH 98=O_RANDOM 99=O_RDONLY 100=O_RDWR 101=O_RSYNC 103=O_SEQUENTIAL 104=O_SHLOCK 105=O_SHORT_LIVED 106=O_SYMLINK 107=O_SYNC 108=O_TEMPORARY 109=O_TEXT 110=O_TMPFILE 111=O_TRUNC 112=O_WRONLY 114=POSIX_FADV_DONTNEED 115=POSIX_FADV_NOREUSE 116=POSIX_FADV_NORMAL 117=POSIX_FADV_RANDOM 118=POSIX_FADV_SEQUENTIAL 119=POSIX_FADV_WILLNEED 124=PRIO_DARWIN_BG 125=PRIO_DARWIN_NONUI 126=PRIO_DARWIN_PROCESS 127=PRIO_DARWIN_THREAD 128=PRIO_PGRP 129=PRIO_PROCESS 130=PRIO_USER 140=PathLike 148=RWF_APPEND 149=RWF_DSYNC 150=RWF_HIPRI 151=RWF_NOWAIT 152=RWF_SYNC 163=SEEK_CUR 164=SEEK_DATA 165=SEEK_END 166=SEEK_HOLE 167=SEEK_SET 168=SF_MNOWAIT 169=SF_NOCACHE 170=SF_NODISKIO 171=SF_SYNC 222=XATTR_CREATE 223=XATTR_REPLACE 224=XATTR_SIZE_MAX 250=_exit 264=abort 265=access 266=add_dll_directory 268=chdir 269=chflags 270=chmod 271=chown 272=chroot 273=close 274=closerange 277=copy_file_range 279=ctermid 280=curdir 282=device_encoding 284=dup 285=dup2 286=environ 287=environb 289=eventfd 290=eventfd_read 291=eventfd_write 292=execl 293=execle 294=execlp 295=execlpe 296=execv 297=execve 298=execvp 299=execvpe 301=fchdir 302=fchmod 303=fchown 304=fdatasync 305=fdopen 306=fork 307=forkpty 308=fpathconf 309=fsdecode 310=fsencode 311=fspath 312=fstat 313=fstatvfs 314=fsync 315=ftruncate 316=fwalk 317=get_blocking 318=get_exec_path 319=get_handle_inheritable 320=get_inheritable 321=get_terminal_size 322=getcwd 323=getcwdb 324=getegid 325=getenv 326=getenvb 327=geteuid 328=getgid 329=getgrouplist 330=getgroups 332=getlogin 333=getpgid 334=getpgrp 335=getpid 336=getppid 337=getpriority 338=getrandom 339=getresgid 340=getresuid 341=getsid 342=getuid 343=getxattr 345=initgroups 346=isatty 347=kill 348=killpg 350=lchmod 351=lchown 353=link 354=listdir 355=listdrives 356=listmounts 357=listvolumes 358=listxattr 359=lockf 360=login_tty 361=lseek 362=lstat 363=major 364=makedev 365=makedirs 366=memfd_create 367=minor 368=mkdir 369=mkfifo 370=mknod 371=name 372=nice 373=open 374=openpty 376=path 377=pathconf 380=pidfd_open 381=pipe 382=pipe2 383=plock 384=popen 385=posix_fadvise 386=posix_fallocate 388=posix_spawn 389=posix_spawnp 390=pread 391=preadv 394=putenv 395=pwrite 396=pwritev 397=read 399=readlink 400=readv 401=register_at_fork 403=remove 404=removedirs 405=removexattr 406=rename 407=renames 408=replace 409=rmdir 410=scandir 422=sendfile 424=set_blocking 425=set_handle_inheritable 426=set_inheritable 427=setegid 428=seteuid 429=setgid 430=setgroups 431=setns 432=setpgid 433=setpgrp 434=setpriority 435=setregid 436=setresgid 437=setresuid 438=setreuid 439=setsid 440=setuid 441=setxattr 442=spawnl 443=spawnle 444=spawnlp 445=spawnlpe 446=spawnv 447=spawnve 448=spawnvp 449=spawnvpe 450=splice 452=startfile 454=stat_result 455=statvfs 459=strerror 460=supports_bytes_environ 461=supports_dir_fd 462=supports_effective_ids 463=supports_fd 464=supports_follow_symlinks 465=symlink 466=sync 470=system 471=tcgetpgrp 472=tcsetpgrp 479=times 482=ttyname 483=umask 484=uname 486=unlink 488=unsetenv 489=unshare 490=urandom 491=utime 492=wait 495=waitid 499=walk 500=write 501=writev -/
-/- module 97 = os.path: 16=abspath 18=basename 19=commonpath 20=commonprefix 24=dirname 25=exists 26=expanduser 27=expandvars 30=getatime 31=getctime 32=getmtime 33=getsize 34=isabs 35=isdevdrive 36=isdir 37=isfile 38=isjunction 39=islink 40=ismount 42=join 43=lexists 44=normcase 45=normpath 49=realpath 50=relpath 51=samefile 52=sameopenfile 53=samestat 54=sep 55=split 56=splitdrive 57=splitext 58=splitroot 60=supports_unicode_filenames -/
+/- module 95 = operator: 5=__abs__ 6=__add__ 8=__and__ 11=__call__ 16=__eq__ 19=__ge__ 21=__gt__ 30=__index__ 32=__invert__ 39=__le__ 41=__lshift__ 42=__lt__ 44=__mod__ 45=__mul__ 47=__ne__ 48=__neg__ 49=__not__ 50=__or__ 52=__pos__ 53=__pow__ 54=__rshift__ 57=__sub__ 58=__truediv__ 59=__xor__ 61=abs 63=and_ 64=attrgetter 65=call 70=eq 72=ge 74=gt 83=index 85=inv 86=invert 90=is_ 91=is_not 93=itemgetter 96=le 98=lshift 99=lt 102=mod 103=mul 104=ne 105=neg 106=not_ 107=or_ 108=pos 109=pow 110=rshift 112=sub 113=truediv 114=truth 115=xor -/
+/- module 96 = os: 20=DirEntry 21=EFD_CLOEXEC 22=EFD_NONBLOCK 23=EFD_SEMAPHORE 24=EX_CANTCREAT 25=EX_CONFIG 26=EX_DATAERR 27=EX_IOERR 28=EX_NOHOST 29=EX_NOINPUT 30=EX_NOPERM 31=EX_NOTFOUND 32=EX_NOUSER 33=EX_OK 34=EX_OSERR 35=EX_OSFILE 36=EX_PROTOCOL 37=EX_SOFTWARE 38=EX_TEMPFAIL 39=EX_UNAVAILABLE 40=EX_USAGE 41=F_LOCK 43=F_TEST 44=F_TLOCK 45=F_ULOCK 49=MFD_ALLOW_SEALING 50=MFD_CLOEXEC 51=MFD_HUGETLB 52=MFD_HUGE_16GB 53=MFD_HUGE_16MB 54=MFD_HUGE_1GB 55=MFD_HUGE_1MB 56=MFD_HUGE_256MB 57=MFD_HUGE_2GB 58=MFD_HUGE_2MB 59=MFD_HUGE_32MB 60=MFD_HUGE_512KB 61=MFD_HUGE_512MB 62=MFD_HUGE_64KB 63=MFD_HUGE_8MB 64=MFD_HUGE_MASK 65=MFD_HUGE_SHIFT 69=OSError 71=O_APPEND 72=O_ASYNC 73=O_BINARY 74=O_CLOEXEC 75=O_CREAT 76=O_DIRECT 77=O_DIRECTORY 78=O_DSYNC 79=O_EVTONLY 80=O_EXCL 82=O_EXLOCK 83=O_FSYNC 85=O_NDELAY 86=O_NOATIME 87=O_NOCTTY 88=O_NOFOLLOW 89=O_NOFOLLOW_ANY 90=O_NOINHERIT 91=O_NONBLOCK 92=O_PATH 93=O_RANDOM 94=O_RDONLY 95=O_RDWR 96=O_RSYNC 98=O_SEQUENTIAL 99=O_SHLOCK 100=O_SHORT_LIVED 101=O_SYMLINK 102=O_SYNC 103=O_TEMPORARY 104=O_TEXT 105=O_TMPFILE 106=O_TRUNC 107=O_WRONLY 109=POSIX_FADV_DONTNEED 110=POSIX_FADV_NOREUSE 111=POSIX_FADV_NORMAL 112=POSIX_FADV_RANDOM 113=POSIX_FADV_SEQUENTIAL 114=POSIX_FADV_WILLNEED 119=PRIO_DARWIN_BG 120=PRIO_DARWIN_NONUI 121=PRIO_DARWIN_PROCESS 122=PRIO_DARWIN_THREAD 123=PRIO_PGRP 124=PRIO_PROCESS 125=PRIO_USER 135=PathLike 143=RWF_APPEND 144=RWF_DSYNC 145=RWF_HIPRI 146=RWF_NOWAIT 147=RWF_SYNC 156=SEEK_CUR 157=SEEK_DATA 158=SEEK_END 159=SEEK_HOLE 160=SEEK_SET 161=SF_MNOWAIT 162=SF_NOCACHE 163=SF_NODISKIO 164=SF_SYNC 199=XATTR_CREATE 200=XATTR_REPLACE 201=XATTR_SIZE_MAX 226=_exit 240=abort 241=access 242=add_dll_directory 244=chdir 245=chflags 246=chmod 247=chown 248=chroot 249=close 250=closerange 253=copy_file_range 255=ctermid 256=curdir 258=device_encoding 260=dup 261=dup2 262=environ 263=environb 265=eventfd 266=eventfd_read 267=eventfd_write 268=execl 269=execle 270=execlp 271=execlpe 272=execv 273=execve 274=execvp 275=execvpe 277=fchdir 278=fchmod 279=fchown 280=fdatasync 281=fdopen 282=fork 283=forkpty 284=fpathconf 285=fsdecode 286=fsencode 287=fspath 288=fstat 289=fstatvfs 290=fsync 291=ftruncate 292=fwalk 293=get_blocking 294=get_exec_path 295=get_handle_inheritable 296=get_inheritable 297=get_terminal_size 298=getcwd 299=getcwdb 300=getegid 301=getenv 302=getenvb 303=geteuid 304=getgid 305=getgrouplist 306=getgroups 308=getlogin 309=getpgid 310=getpgrp 311=getpid 312=getppid 313=getpriority 314=getrandom 315=getresgid 316=getresuid 317=getsid 318=getuid 319=getxattr 321=initgroups 322=isatty 323=kill 324=killpg 326=lchmod 327=lchown 329=link 330=listdir 331=listdrives 332=listmounts 333=listvolumes 334=listxattr 335=lockf 336=login_tty 337=lseek 338=lstat 339=major 340=makedev 341=makedirs 342=memfd_create 343=minor 344=mkdir 345=mkfifo 346=mknod 347=name 348=nice 349=open 350=openpty 352=path 353=pathconf 356=pidfd_open 357=pipe 358=pipe2 359=plock 360=popen 361=posix_fadvise 362=posix_fallocate 364=posix_spawn 365=posix_spawnp 366=pread 367=preadv 370=putenv 371=pwrite 372=pwritev 373=read 374=readlink 375=readv 376=register_at_fork 377=remove 378=removedirs 379=removexattr 380=rename 381=renames 382=replace 383=rmdir 384=scandir 396=sendfile 398=set_blocking 399=set_handle_inheritable 400=set_inheritable 401=setegid 402=seteuid 403=setgid 404=setgroups 405=setns 406=setpgid 407=setpgrp 408=setpriority 409=setregid 410=setresgid 411=setresuid 412=setreuid 413=setsid 414=setuid 415=setxattr 416=spawnl 417=spawnle 418=spawnlp 419=spawnlpe 420=spawnv 421=spawnve 422=spawnvp 423=spawnvpe 424=splice 426=startfile 428=stat_result 429=statvfs 431=strerror 432=supports_bytes_environ 433=supports_dir_fd 434=supports_effective_ids 435=supports_fd 436=supports_follow_symlinks 437=symlink 438=sync 442=system 443=tcgetpgrp 444=tcsetpgrp 451=times 454=ttyname 455=umask 456=uname 458=unlink 460=unsetenv 461=unshare 462=urandom 463=utime 464=wait 467=waitid 471=walk 472=write 473=writev -/
+/- module 97 = os.path: 15=abspath 17=basename 18=commonpath 19=commonprefix 23=dirname 24=exists 25=expanduser 26=expandvars 29=getatime 30=getctime 31=getmtime 32=getsize 33=isabs 34=isdevdrive 35=isdir 36=isfile 37=isjunction 38=islink 39=ismount 41=join 42=lexists 43=normcase 44=normpath 48=realpath 49=relpath 50=samefile 51=sameopenfile 52=samestat 53=sep 54=split 55=splitdrive 56=splitext 57=splitroot 59=supports_unicode_filenames -/
 /- module 98 = pathlib: 5=Path 6=PosixPath 7=PurePath 8=PurePosixPath 9=PureWindowsPath 19=WindowsPath -/
-/- module 99 = pdb: 2=Pdb 47=pm 51=run 52=runcall 54=runeval 56=set_trace -/
+/- module 99 = pdb: 2=Pdb 46=pm 50=run 51=runcall 53=runeval 54=set_trace -/
 /- module 100 = pickle: 0=ADDITEMS 1=APPEND 2=APPENDS 3=BINBYTES 4=BINBYTES8 5=BINFLOAT 6=BINGET 7=BININT 8=BININT1 9=BININT2 10=BINPERSID 11=BINPUT 12=BINSTRING 13=BINUNICODE 14=BINUNICODE8 15=BUILD 16=BYTEARRAY8 17=DEFAULT_PROTOCOL 18=DICT 19=DUP 20=EMPTY_DICT 21=EMPTY_LIST 22=EMPTY_SET 23=EMPTY_TUPLE 24=EXT1 25=EXT2 26=EXT4 27=FALSE 28=FLOAT 29=FRAME 30=FROZENSET 32=GET 33=GLOBAL 34=HIGHEST_PROTOCOL 35=INST 36=INT 37=LIST 38=LONG 39=LONG1 40=LONG4 41=LONG_BINGET 42=LONG_BINPUT 43=MARK 44=MEMOIZE 45=NEWFALSE 46=NEWOBJ 47=NEWOBJ_EX 48=NEWTRUE 49=NEXT_BUFFER 50=NONE 51=OBJ 52=PERSID 53=POP 54=POP_MARK 55=PROTO 56=PUT 58=PickleError 60=PicklingError 62=READONLY_BUFFER 63=REDUCE 64=SETITEM 65=SETITEMS 66=SHORT_BINBYTES 67=SHORT_BINSTRING 68=SHORT_BINUNICODE 69=STACK_GLOBAL 70=STOP 71=STRING 72=TRUE 73=TUPLE 74=TUPLE1 75=TUPLE2 76=TUPLE3 77=UNICODE 79=UnpicklingError 107=bytes_types 109=compatible_formats 112=dump 113=dumps 115=format_version 118=load 119=loads -/
-/- module 101 = platform: 59=architecture 68=libc_ver 70=mac_ver 71=machine 72=node 74=platform 76=processor 77=python_branch 78=python_build 79=python_compiler 80=python_implementation 81=python_revision 82=python_version 83=python_version_tuple 85=release 88=system 89=system_alias 90=uname 92=version 94=win32_edition 95=win32_is_iot 96=win32_ver -/
-/- module 102 = posix: 381=uname_result -/
-/- module 103 = posixpath: 16=abspath 18=basename 19=commonpath 20=commonprefix 24=dirname 25=exists 26=expanduser 27=expandvars 30=getatime 31=getctime 32=getmtime 33=getsize 34=isabs 36=isdir 37=isfile 39=islink 40=ismount 41=join 42=lexists 43=normcase 44=normpath 48=realpath 49=relpath 50=samefile 51=sameopenfile 54=split 55=splitdrive 56=splitext 59=supports_unicode_filenames -/
+/- module 101 = platform: 59=architecture 67=libc_ver 69=mac_ver 70=machine 71=node 73=platform 75=processor 76=python_branch 77=python_build 78=python_compiler 79=python_implementation 80=python_revision 81=python_version 82=python_version_tuple 84=release 87=system 88=system_alias 89=uname 91=version 93=win32_edition 94=win32_is_iot 95=win32_ver -/
+/- module 102 = posix: 354=uname_result -/
+/- module 103 = posixpath: 15=abspath 17=basename 18=commonpath 19=commonprefix 23=dirname 24=exists 25=expanduser 26=expandvars 29=getatime 30=getctime 31=getmtime 32=getsize 33=isabs 35=isdir 36=isfile 38=islink 39=ismount 40=join 41=lexists 42=normcase 43=normpath 47=realpath 48=relpath 49=samefile 50=sameopenfile 53=split 54=splitdrive 55=splitext 58=supports_unicode_filenames -/
 /- module 104 = pprint: 0=PrettyPrinter 22=isreadable 23=isrecursive 24=pformat 25=pp 26=pprint 28=saferepr -/
 /- module 105 = py_compile: 0=PyCompileError 12=compile -/
 /- module 106 = pydoc:  -/
 /- module 107 = queue: 0=Empty 1=Full 2=LifoQueue 3=PriorityQueue 4=Queue 5=ShutDown 6=SimpleQueue -/
 /- module 108 = random: 4=Random 6=SystemRandom 51=betavariate 53=choice 54=choices 55=expovariate 56=gammavariate 57=gauss 58=getrandbits 59=getstate 60=lognormvariate 62=normalvariate 63=paretovariate 64=randbytes 65=randint 66=random 67=randrange 68=sample 69=seed 70=setstate 71=shuffle 72=triangular 73=uniform 74=vonmisesvariate 75=weibullvariate -/
-/- module 109 = re: 0=A 1=ASCII 2=DEBUG 3=DOTALL 4=I 5=IGNORECASE 6=L 7=LOCALE 8=M 9=MULTILINE 10=Match 11=NOFLAG 12=Pattern 14=RegexFlag 15=S 21=VERBOSE 22=X 55=compile 59=escape 60=findall 61=finditer 62=fullmatch 64=match 66=purge 67=search 68=split 71=sub 72=subn -/
+/- module 109 = re: 0=A 1=ASCII 2=DEBUG 3=DOTALL 4=I 5=IGNORECASE 6=L 7=LOCALE 8=M 9=MULTILINE 10=Match 11=NOFLAG 12=Pattern 14=RegexFlag 15=S 21=VERBOSE 22=X 55=compile 59=escape 60=findall 61=finditer 62=fullmatch 64=match 65=purge 66=search 67=split 70=sub 71=subn -/
 /- module 110 = secrets:  -/
 /- module 111 = shlex: 14=join 16=quote 18=shlex 19=split -/
 /- module 112 = shutil: 21=_WINDOWS 62=chown 64=copy 65=copy2 66=copyfile 67=copyfileobj 68=copymode 69=copystat 70=copytree 71=disk_usage 74=get_archive_formats 75=get_terminal_size 76=get_unpack_formats 79=ignore_patterns 80=make_archive 81=move 85=register_archive_format 86=register_unpack_format 87=rmtree 90=unpack_archive 91=unregister_archive_format 92=unregister_unpack_format 94=which -/
 /- module 113 = signal: 0=CTRL_BREAK_EVENT 1=CTRL_C_EVENT 2=Handlers 3=ITIMER_PROF 4=ITIMER_REAL 5=ITIMER_VIRTUAL 7=NSIG 9=SIGALRM 10=SIGBREAK 11=SIGBUS 12=SIGCHLD 13=SIGCLD 14=SIGCONT 16=SIGFPE 17=SIGHUP 18=SIGILL 20=SIGINT 23=SIGKILL 24=SIGPIPE 31=SIGSEGV 32=SIGSTKFLT 35=SIGTERM 41=SIGUSR1 42=SIGUSR2 44=SIGWINCH 47=SIG_BLOCK 48=SIG_DFL 49=SIG_IGN 50=SIG_SETMASK 51=SIG_UNBLOCK 52=Sigmasks 53=Signals 68=alarm 71=getsignal 72=pause 80=signal 85=strsignal -/
-/- module 114 = socket: 0=AF_ALG 1=AF_APPLETALK 2=AF_ASH 3=AF_ATMPVC 4=AF_ATMSVC 5=AF_AX25 6=AF_BLUETOOTH 7=AF_BRIDGE 8=AF_CAN 9=AF_DECnet 11=AF_ECONET 13=AF_INET 14=AF_INET6 15=AF_IPX 16=AF_IRDA 17=AF_KEY 19=AF_LLC 20=AF_NETBEUI 21=AF_NETLINK 22=AF_NETROM 23=AF_PACKET 24=AF_PPPOX 25=AF_QIPCRTR 26=AF_RDS 27=AF_ROSE 28=AF_ROUTE 29=AF_SECURITY 30=AF_SNA 32=AF_TIPC 33=AF_UNIX 34=AF_UNSPEC 35=AF_VSOCK 36=AF_WANPIPE 37=AF_X25 58=AddressFamily 453=SOCK_DGRAM 455=SOCK_RAW 456=SOCK_RDM 457=SOCK_SEQPACKET 458=SOCK_STREAM 459=SOL_ALG 463=SOL_CAN_BASE 465=SOL_CAN_RAW 467=SOL_IP 471=SOL_RDS 475=SOL_SOCKET 476=SOL_TCP 477=SOL_TIPC 478=SOL_UDP 480=SO_ACCEPTCONN 481=SO_BINDTODEVICE 483=SO_BROADCAST 488=SO_DEBUG 489=SO_DOMAIN 490=SO_DONTROUTE 491=SO_ERROR 493=SO_INCOMING_CPU 494=SO_J1939_ERRQUEUE 495=SO_J1939_FILTER 496=SO_J1939_PROMISC 497=SO_J1939_SEND_PRIO 498=SO_KEEPALIVE 499=SO_LINGER 500=SO_MARK 501=SO_OOBINLINE 503=SO_PASSCRED 504=SO_PASSSEC 505=SO_PEERCRED 506=SO_PEERSEC 507=SO_PRIORITY 508=SO_PROTOCOL 509=SO_RCVBUF 510=SO_RCVLOWAT 511=SO_RCVTIMEO 512=SO_REUSEADDR 513=SO_REUSEPORT 515=SO_SNDBUF 516=SO_SNDLOWAT 517=SO_SNDTIMEO 518=SO_TYPE 520=SO_VM_SOCKETS_BUFFER_MAX_SIZE 521=SO_VM_SOCKETS_BUFFER_MIN_SIZE 522=SO_VM_SOCKETS_BUFFER_SIZE 525=SocketKind 618=close 619=create_connection 620=create_server 625=fromfd 628=getaddrinfo 631=gethostbyaddr 632=gethostbyname 633=gethostbyname_ex 634=gethostname 635=getnameinfo 639=has_dualstack_ipv6 660=socket 661=socketpair -/
+/- module 114 = socket: 0=AF_ALG 1=AF_APPLETALK 2=AF_ASH 3=AF_ATMPVC 4=AF_ATMSVC 5=AF_AX25 6=AF_BLUETOOTH 7=AF_BRIDGE 8=AF_CAN 9=AF_DECnet 11=AF_ECONET 13=AF_INET 14=AF_INET6 15=AF_IPX 16=AF_IRDA 17=AF_KEY 19=AF_LLC 20=AF_NETBEUI 21=AF_NETLINK 22=AF_NETROM 23=AF_PACKET 24=AF_PPPOX 25=AF_QIPCRTR 26=AF_RDS 27=AF_ROSE 28=AF_ROUTE 29=AF_SECURITY 30=AF_SNA 32=AF_TIPC 33=AF_UNIX 34=AF_UNSPEC 35=AF_VSOCK 36=AF_WANPIPE 37=AF_X25 58=AddressFamily 357=SOCK_DGRAM 359=SOCK_RAW 360=SOCK_RDM 361=SOCK_SEQPACKET 362=SOCK_STREAM 363=SOL_ALG 366=SOL_CAN_BASE 367=SOL_CAN_RAW 369=SOL_IP 372=SOL_RDS 374=SOL_SOCKET 375=SOL_TCP 376=SOL_TIPC 377=SOL_UDP 379=SO_ACCEPTCONN 380=SO_BINDTODEVICE 382=SO_BROADCAST 383=SO_DEBUG 384=SO_DOMAIN 385=SO_DONTROUTE 386=SO_ERROR 388=SO_INCOMING_CPU 389=SO_J1939_ERRQUEUE 390=SO_J1939_FILTER 391=SO_J1939_PROMISC 392=SO_J1939_SEND_PRIO 393=SO_KEEPALIVE 394=SO_LINGER 395=SO_MARK 396=SO_OOBINLINE 397=SO_PASSCRED 398=SO_PASSSEC 399=SO_PEERCRED 400=SO_PEERSEC 401=SO_PRIORITY 402=SO_PROTOCOL 403=SO_RCVBUF 404=SO_RCVLOWAT 405=SO_RCVTIMEO 406=SO_REUSEADDR 407=SO_REUSEPORT 409=SO_SNDBUF 410=SO_SNDLOWAT 411=SO_SNDTIMEO 412=SO_TYPE 414=SO_VM_SOCKETS_BUFFER_MAX_SIZE 415=SO_VM_SOCKETS_BUFFER_MIN_SIZE 416=SO_VM_SOCKETS_BUFFER_SIZE 419=SocketKind 511=close 512=create_connection 513=create_server 518=fromfd 521=getaddrinfo 524=gethostbyaddr 525=gethostbyname 526=gethostbyname_ex 527=gethostname 528=getnameinfo 532=has_dualstack_ipv6 553=socket 554=socketpair -/
 /- module 115 = socketserver: 0=BaseRequestHandler 1=BaseServer 3=DatagramRequestHandler 4=ForkingMixIn 5=ForkingTCPServer 6=ForkingUDPServer 9=StreamRequestHandler 10=TCPServer 11=ThreadingMixIn 12=ThreadingTCPServer 13=ThreadingUDPServer 16=UDPServer 17=UnixDatagramServer 18=UnixStreamServer -/
-/- module 116 = sqlite3: 1=Blob 3=Connection 4=Cursor 21=Row 235=complete_statement 236=connect -/
-/- module 117 = ssl: 51=OPENSSL_VERSION 52=OPENSSL_VERSION_INFO 85=RAND_add 86=RAND_bytes 87=RAND_pseudo_bytes 88=RAND_status 92=SSLCertVerificationError 93=SSLContext 94=SSLEOFError 95=SSLError 99=SSLSocket 100=SSLSyscallError 101=SSLWantReadError 102=SSLWantWriteError 103=SSLZeroReturnError 169=create_default_context -/
-/- module 118 = stat: 0=FILE_ATTRIBUTE_ARCHIVE 1=FILE_ATTRIBUTE_COMPRESSED 2=FILE_ATTRIBUTE_DEVICE 3=FILE_ATTRIBUTE_DIRECTORY 4=FILE_ATTRIBUTE_ENCRYPTED 5=FILE_ATTRIBUTE_HIDDEN 6=FILE_ATTRIBUTE_INTEGRITY_STREAM 7=FILE_ATTRIBUTE_NORMAL 8=FILE_ATTRIBUTE_NOT_CONTENT_INDEXED 9=FILE_ATTRIBUTE_NO_SCRUB_DATA 10=FILE_ATTRIBUTE_OFFLINE 11=FILE_ATTRIBUTE_READONLY 12=FILE_ATTRIBUTE_REPARSE_POINT 13=FILE_ATTRIBUTE_SPARSE_FILE 14=FILE_ATTRIBUTE_SYSTEM 15=FILE_ATTRIBUTE_TEMPORARY 16=FILE_ATTRIBUTE_VIRTUAL 20=SF_APPEND 21=SF_ARCHIVED 24=SF_IMMUTABLE 25=SF_NOUNLINK 28=SF_SNAPSHOT 41=ST_ATIME 42=ST_CTIME 43=ST_DEV 44=ST_GID 45=ST_INO 46=ST_MODE 47=ST_MTIME 48=ST_NLINK 49=ST_SIZE 50=ST_UID 51=S_ENFMT 52=S_IEXEC 53=S_IFBLK 54=S_IFCHR 55=S_IFDIR 56=S_IFDOOR 57=S_IFIFO 58=S_IFLNK 59=S_IFMT 60=S_IFPORT 61=S_IFREG 62=S_IFSOCK 63=S_IFWHT 64=S_IMODE 65=S_IREAD 66=S_IRGRP 67=S_IROTH 68=S_IRUSR 69=S_IRWXG 70=S_IRWXO 71=S_IRWXU 72=S_ISBLK 73=S_ISCHR 74=S_ISDIR 75=S_ISDOOR 76=S_ISFIFO 77=S_ISGID 78=S_ISLNK 79=S_ISPORT 80=S_ISREG 81=S_ISSOCK 82=S_ISUID 83=S_ISVTX 84=S_ISWHT 85=S_IWGRP 86=S_IWOTH 87=S_IWRITE 88=S_IWUSR 89=S_IXGRP 90=S_IXOTH 91=S_IXUSR 92=UF_APPEND 93=UF_COMPRESSED 95=UF_HIDDEN 96=UF_IMMUTABLE 97=UF_NODUMP 98=UF_NOUNLINK 99=UF_OPAQUE 111=filemode -/
+/- module 116 = sqlite3: 1=Blob 3=Connection 4=Cursor 21=Row 234=complete_statement 235=connect -/
+/- module 117 = ssl: 49=OPENSSL_VERSION 50=OPENSSL_VERSION_INFO 83=RAND_add 84=RAND_bytes 85=RAND_pseudo_bytes 86=RAND_status 90=SSLCertVerificationError 91=SSLContext 92=SSLEOFError 93=SSLError 97=SSLSocket 98=SSLSyscallError 99=SSLWantReadError 100=SSLWantWriteError 101=SSLZeroReturnError 167=create_default_context -/
+/- module 118 = stat: 0=FILE_ATTRIBUTE_ARCHIVE 1=FILE_ATTRIBUTE_COMPRESSED 2=FILE_ATTRIBUTE_DEVICE 3=FILE_ATTRIBUTE_DIRECTORY 4=FILE_ATTRIBUTE_ENCRYPTED 5=FILE_ATTRIBUTE_HIDDEN 6=FILE_ATTRIBUTE_INTEGRITY_STREAM 7=FILE_ATTRIBUTE_NORMAL 8=FILE_ATTRIBUTE_NOT_CONTENT_INDEXED 9=FILE_ATTRIBUTE_NO_SCRUB_DATA 10=FILE_ATTRIBUTE_OFFLINE 11=FILE_ATTRIBUTE_READONLY 12=FILE_ATTRIBUTE_REPARSE_POINT 13=FILE_ATTRIBUTE_SPARSE_FILE 14=FILE_ATTRIBUTE_SYSTEM 15=FILE_ATTRIBUTE_TEMPORARY 16=FILE_ATTRIBUTE_VIRTUAL 20=SF_APPEND 21=SF_ARCHIVED 24=SF_IMMUTABLE 25=SF_NOUNLINK 28=SF_SNAPSHOT 31=ST_ATIME 32=ST_CTIME 33=ST_DEV 34=ST_GID 35=ST_INO 36=ST_MODE 37=ST_MTIME 38=ST_NLINK 39=ST_SIZE 40=ST_UID 41=S_ENFMT 42=S_IEXEC 43=S_IFBLK 44=S_IFCHR 45=S_IFDIR 46=S_IFDOOR 47=S_IFIFO 48=S_IFLNK 49=S_IFMT 50=S_IFPORT 51=S_IFREG 52=S_IFSOCK 53=S_IFWHT 54=S_IMODE 55=S_IREAD 56=S_IRGRP 57=S_IROTH 58=S_IRUSR 59=S_IRWXG 60=S_IRWXO 61=S_IRWXU 62=S_ISBLK 63=S_ISCHR 64=S_ISDIR 65=S_ISDOOR 66=S_ISFIFO 67=S_ISGID 68=S_ISLNK 69=S_ISPORT 70=S_ISREG 71=S_ISSOCK 72=S_ISUID 73=S_ISVTX 74=S_ISWHT 75=S_IWGRP 76=S_IWOTH 77=S_IWRITE 78=S_IWUSR 79=S_IXGRP 80=S_IXOTH 81=S_IXUSR 82=UF_APPEND 83=UF_COMPRESSED 85=UF_HIDDEN 86=UF_IMMUTABLE 87=UF_NODUMP 88=UF_NOUNLINK 89=UF_OPAQUE 101=filemode -/
 /- module 119 = statistics: 55=correlation 59=covariance 64=fmean 66=geometric_mean 68=harmonic_mean 75=linear_regression 78=mean 79=median 80=median_grouped 81=median_high 82=median_low 83=mode 85=multimode 89=pstdev 90=pvariance 91=quantiles 97=stdev 102=variance -/
 /- module 120 = string: 0=Formatter 1=Template 16=ascii_letters 17=ascii_lowercase 18=ascii_uppercase 19=capwords 20=digits 21=hexdigits 22=octdigits 23=printable 24=punctuation 26=whitespace -/
 /- module 121 = struct: 0=Struct 11=calcsize 12=error 13=iter_unpack 14=pack 15=pack_into 16=unpack 17=unpack_from -/
 /- module 122 = subprocess: 7=CalledProcessError 8=CompletedProcess 10=DEVNULL 14=PIPE 15=Popen 22=STDOUT 27=SubprocessError 28=TimeoutExpired 66=call 67=check_call 68=check_output 80=run -/
 /- module 123 = symtable: 1=Class 10=Function 17=Symbol 18=SymbolTable 20=SymbolTableType 37=symtable -/
-/- module 124 = sys: 22=__stderr__ 23=__stdin__ 24=__stdout__ 30=_clear_type_cache 32=_current_frames 60=abiflags 62=addaudithook 63=api_version 64=argv 65=audit 66=base_exec_prefix 67=base_prefix 68=breakpointhook 69=builtin_module_names 70=byteorder 73=copyright 75=displayhook 76=dllhandle 77=dont_write_bytecode 78=exc_info 80=exception 81=exec_prefix 82=executable 83=exit 84=flags 85=float_info 86=float_repr_style 96=getdefaultencoding 101=getrecursionlimit 102=getrefcount 103=getsizeof 104=getswitchinterval 109=hash_info 110=hexversion 111=implementation 112=int_info 113=intern 114=is_finalizing 122=maxsize 123=maxunicode 124=meta_path 125=modules 128=path 131=platform 132=platlibdir 133=prefix 134=ps1 135=ps2 136=pycache_prefix 147=setrecursionlimit 150=stderr 151=stdin 152=stdlib_module_names 153=stdout 157=version 158=version_info -/
+/- module 124 = sys: 21=__stderr__ 22=__stdin__ 23=__stdout__ 29=_clear_type_cache 31=_current_frames 56=abiflags 58=addaudithook 59=api_version 60=argv 61=audit 62=base_exec_prefix 63=base_prefix 64=breakpointhook 65=builtin_module_names 66=byteorder 69=copyright 71=displayhook 72=dllhandle 73=dont_write_bytecode 74=exc_info 76=exception 77=exec_prefix 78=executable 79=exit 80=flags 81=float_info 82=float_repr_style 90=getdefaultencoding 95=getrecursionlimit 96=getrefcount 97=getsizeof 98=getswitchinterval 103=hash_info 104=hexversion 105=implementation 106=int_info 107=intern 108=is_finalizing 114=maxsize 115=maxunicode 116=meta_path 117=modules 120=path 123=platform 124=platlibdir 125=prefix 126=ps1 127=ps2 128=pycache_prefix 136=setrecursionlimit 139=stderr 140=stdin 141=stdlib_module_names 142=stdout 146=version 147=version_info -/
 /- module 125 = tarfile: 49=TarFile 90=is_tarfile 95=open -/
 /- module 126 = tempfile: 0=NamedTemporaryFile 3=TemporaryDirectory 4=TemporaryFile 10=_TemporaryFileWrapper 46=gettempdir 47=gettempdirb 48=gettempprefix 49=gettempprefixb 50=mkdtemp 51=mkstemp 53=tempdir -/
 /- module 127 = textwrap: 0=TextWrapper 13=dedent 14=fill 15=indent 17=shorten 18=wrap -/
-/- module 128 = threading: 0=Barrier 1=BoundedSemaphore 2=BrokenBarrierError 3=Condition 4=Event 6=Lock 7=RLock 8=Semaphore 10=Thread 12=Timer 71=active_count 82=local -/
+/- module 128 = threading: 0=Barrier 1=BoundedSemaphore 2=BrokenBarrierError 3=Condition 4=Event 6=Lock 7=RLock 8=Semaphore 10=Thread 12=Timer 71=active_count 81=local -/
 /- module 129 = time: 0=CLOCK_BOOTTIME 2=CLOCK_MONOTONIC 3=CLOCK_MONOTONIC_RAW 5=CLOCK_PROCESS_CPUTIME_ID 6=CLOCK_PROF 7=CLOCK_REALTIME 22=altzone 23=asctime 24=clock 25=clock_getres 26=clock_gettime 27=clock_gettime_ns 28=clock_settime 29=clock_settime_ns 30=ctime 31=daylight 33=gmtime 34=localtime 35=mktime 36=monotonic 37=monotonic_ns 38=perf_counter 39=perf_counter_ns 40=process_time 41=process_time_ns 43=sleep 44=strftime 45=strptime 46=struct_time 47=thread_time 48=thread_time_ns 49=time 50=time_ns 51=timezone 52=tzname 53=tzset -/
 /- module 130 = timeit: 25=timeit -/
 /- module 131 = tkinter: 11=BitmapImage 13=Button 22=Canvas 23=Checkbutton 32=Entry 38=Frame 49=Label 50=LabelFrame 51=Listbox 55=Menu 56=Menubutton 57=Message 72=OptionMenu 77=PanedWindow 78=PhotoImage 98=Scale 99=Scrollbar 100=Spinbox 107=Text 108=Tk 110=Toplevel 118=Widget -/
@@ -146,15 +146,15 @@ namespace ErgVerif.Gen.C27
 /- module 138 = tkinter.font: 1=Font -/
 /- module 139 = tkinter.messagebox: 28=askokcancel 29=askquestion 30=askretrycancel 31=askyesno 33=showerror 34=showinfo 35=showwarning -/
 /- module 140 = tkinter.scrolledtext: 8=ScrolledText -/
-/- module 141 = tkinter.simpledialog: 101=SimpleDialog 145=askfloat 146=askinteger 147=askstring -/
+/- module 141 = tkinter.simpledialog: 101=SimpleDialog 144=askfloat 145=askinteger 146=askstring -/
 /- module 142 = tkinter.ttk: 1=Checkbutton 2=Combobox 10=Notebook 14=Progressbar 15=Radiobutton 18=Separator 19=Sizegrip 21=Style 22=Treeview -/
 /- module 143 = tomllib: 14=load 15=loads -/
 /- module 144 = trace: 0=CoverageResults 2=Trace -/
 /- module 145 = traceback: 4=TracebackException 58=print_tb -/
 /- module 146 = tty: 254=setcbreak 255=setraw -/
-/- module 147 = types: 0=AsyncGeneratorType 1=BuiltinFunctionType 2=BuiltinMethodType 4=CellType 5=ClassMethodDescriptorType 6=CodeType 7=CoroutineType 9=EllipsisType 11=FrameType 12=FunctionType 13=GeneratorType 14=GenericAlias 16=LambdaType 18=MappingProxyType 20=MethodDescriptorType 21=MethodType 22=MethodWrapperType 23=ModuleType 24=NoneType 25=NotImplementedType 27=TracebackType 28=UnionType 29=WrapperDescriptorType -/
-/- module 148 = typing: 1=AbstractSet 2=Annotated 3=Any 4=AnyStr 5=AsyncContextManager 6=AsyncGenerator 7=AsyncIterable 8=AsyncIterator 9=Awaitable 11=BinaryIO 12=ByteString 14=Callable 15=ChainMap 16=ClassVar 17=Collection 18=Concatenate 19=Container 20=ContextManager 21=Coroutine 22=Counter 23=DefaultDict 24=Deque 25=Dict 27=Final 28=ForwardRef 29=FrozenSet 30=Generator 31=Generic 33=Hashable 34=IO 35=ItemsView 36=Iterable 37=Iterator 39=KeysView 40=List 41=Literal 42=LiteralString 43=Mapping 44=MappingView 45=Match 48=MutableMapping 49=MutableSequence 50=MutableSet 51=NamedTuple 53=Never 54=NewType 55=NoDefault 57=NoReturn 58=NotRequired 59=Optional 60=OrderedDict 61=ParamSpec 62=ParamSpecArgs 63=ParamSpecKwargs 64=Pattern 65=Protocol 66=ReadOnly 67=Required 68=Reversible 69=Self 70=Sequence 71=Set 72=Sized 73=SupportsAbs 74=SupportsBytes 75=SupportsComplex 76=SupportsFloat 77=SupportsIndex 78=SupportsInt 79=SupportsRound 81=TYPE_CHECKING 84=Text 85=TextIO 86=Tuple 87=Type 88=TypeAlias 89=TypeAliasType 91=TypeGuard 92=TypeIs 93=TypeVar 94=TypeVarTuple 95=TypedDict 96=Union 97=Unpack 101=ValuesView 144=_SpecialForm 241=assert_never 242=assert_type 243=cast 244=clear_overloads 252=final 254=get_args 255=get_origin 256=get_overloads 257=get_protocol_members 258=get_type_hints 260=is_protocol 261=is_typeddict 262=no_type_check 263=no_type_check_decorator 265=overload 266=override 268=reveal_type 269=runtime_checkable 272=type_check_only -/
-/- module 149 = unicodedata: 0=UCD 11=bidirectional 13=category 14=combining 15=decimal 16=decomposition 17=digit 18=east_asian_width 22=is_normalized 26=lookup 27=mirrored 28=name 29=normalize 30=numeric 31=ucd_3_2_0 33=unidata_version -/
+/- module 147 = types: 0=AsyncGeneratorType 1=BuiltinFunctionType 2=BuiltinMethodType 4=CellType 5=ClassMethodDescriptorType 6=CodeType 7=CoroutineType 9=EllipsisType 10=FrameType 11=FunctionType 12=GeneratorType 13=GenericAlias 15=LambdaType 16=MappingProxyType 18=MethodDescriptorType 19=MethodType 20=MethodWrapperType 21=ModuleType 22=NoneType 23=NotImplementedType 25=TracebackType 26=UnionType 27=WrapperDescriptorType -/
+/- module 148 = typing: 1=AbstractSet 2=Annotated 3=Any 4=AnyStr 5=AsyncContextManager 6=AsyncGenerator 7=AsyncIterable 8=AsyncIterator 9=Awaitable 11=BinaryIO 12=ByteString 14=Callable 15=ChainMap 16=ClassVar 17=Collection 18=Concatenate 19=Container 20=ContextManager 21=Coroutine 22=Counter 23=DefaultDict 24=Deque 25=Dict 27=Final 28=ForwardRef 29=FrozenSet 30=Generator 31=Generic 33=Hashable 34=IO 35=ItemsView 36=Iterable 37=Iterator 39=KeysView 40=List 41=Literal 42=LiteralString 43=Mapping 44=MappingView 45=Match 48=MutableMapping 49=MutableSequence 50=MutableSet 51=NamedTuple 53=Never 54=NewType 55=NoDefault 56=NoReturn 57=NotRequired 58=Optional 59=OrderedDict 60=ParamSpec 61=ParamSpecArgs 62=ParamSpecKwargs 63=Pattern 64=Protocol 65=ReadOnly 66=Required 67=Reversible 68=Self 69=Sequence 70=Set 71=Sized 72=SupportsAbs 73=SupportsBytes 74=SupportsComplex 75=SupportsFloat 76=SupportsIndex 77=SupportsInt 78=SupportsRound 80=TYPE_CHECKING 83=Text 84=TextIO 85=Tuple 86=Type 87=TypeAlias 88=TypeAliasType 89=TypeGuard 90=TypeIs 91=TypeVar 92=TypeVarTuple 93=TypedDict 94=Union 95=Unpack 99=ValuesView 141=_SpecialForm 238=assert_never 239=assert_type 240=cast 241=clear_overloads 247=final 249=get_args 250=get_origin 251=get_overloads 252=get_protocol_members 253=get_type_hints 255=is_protocol 256=is_typeddict 257=no_type_check 258=no_type_check_decorator 260=overload 261=override 263=reveal_type 264=runtime_checkable 267=type_check_only -/
+/- module 149 = unicodedata: 0=UCD 11=bidirectional 12=category 13=combining 14=decimal 15=decomposition 16=digit 17=east_asian_width 18=is_normalized 19=lookup 20=mirrored 21=name 22=normalize 23=numeric 24=ucd_3_2_0 26=unidata_version -/
 /- module 150 = unittest: 0=BaseTestSuite 3=SkipTest 4=TestCase 5=TestLoader 6=TestProgram 7=TestResult 8=TestSuite 9=TextTestResult 10=TextTestRunner 28=case 29=defaultTestLoader 33=findTestCases 34=getTestCaseNames 35=installHandler 37=loader 38=main 39=makeSuite 41=registerResult 43=removeResult 44=result 45=runner 46=signals 50=suite -/
 /- module 151 = unittest.case: 0=DIFF_OMITTED 2=SkipTest 3=TestCase 47=doModuleCleanups -/
 /- module 152 = unittest.loader: 0=TestLoader 1=VALID_MODULE_NAME 21=case 22=defaultTestLoader 23=findTestCases 27=getTestCaseNames 28=makeSuite 31=suite -/
@@ -171,12 +171,12 @@ namespace ErgVerif.Gen.C27
 /- module 163 = urllib.request: 0=AbstractBasicAuthHandler 1=AbstractDigestAuthHandler 3=BaseHandler 4=CacheFTPHandler 6=DataHandler 7=FTPHandler 9=FileHandler 10=HTTPBasicAuthHandler 11=HTTPCookieProcessor 12=HTTPDefaultErrorHandler 13=HTTPDigestAuthHandler 15=HTTPErrorProcessor 16=HTTPHandler 17=HTTPPasswordMgr 18=HTTPPasswordMgrWithDefaultRealm 19=HTTPPasswordMgrWithPriorAuth 20=HTTPRedirectHandler 21=HTTPSHandler 23=OpenerDirector 24=ProxyBasicAuthHandler 25=ProxyDigestAuthHandler 26=ProxyHandler 27=Request 30=UnknownHandler 72=build_opener 82=install_opener 119=urlopen -/
 /- module 164 = urllib.response: 9=addbase 10=addclosehook 11=addinfo 12=addinfourl 13=tempfile -/
 /- module 165 = urllib.robotparser: 0=Entry 2=RobotFileParser -/
-/- module 166 = uuid: 2=NAMESPACE_DNS 3=NAMESPACE_OID 4=NAMESPACE_URL 5=NAMESPACE_X500 7=RESERVED_FUTURE 8=RESERVED_MICROSOFT 9=RESERVED_NCS 10=RFC_4122 11=SafeUUID 12=UUID 58=getnode 64=uuid1 65=uuid3 66=uuid4 67=uuid5 -/
+/- module 166 = uuid: 1=NAMESPACE_DNS 2=NAMESPACE_OID 3=NAMESPACE_URL 4=NAMESPACE_X500 5=RESERVED_FUTURE 6=RESERVED_MICROSOFT 7=RESERVED_NCS 8=RFC_4122 9=SafeUUID 10=UUID 56=getnode 62=uuid1 63=uuid3 64=uuid4 65=uuid5 -/
 /- module 167 = venv: 1=EnvBuilder 11=create -/
 /- module 168 = warnings: 35=catch_warnings 39=filterwarnings 40=formatwarning 42=resetwarnings 43=showwarning 44=simplefilter 46=warn 47=warn_explicit -/
 /- module 169 = weakref: 4=ReferenceType -/
-/- module 170 = zipfile: 24=ZipFile 136=is_zipfile -/
-/- module 171 = zlib: 0=Compress 4=Decompress 7=ZLIB_RUNTIME_VERSION 8=ZLIB_VERSION 35=adler32 37=compress 38=compressobj 39=crc32 41=decompress 42=decompressobj 43=error -/
+/- module 170 = zipfile: 22=ZipFile 134=is_zipfile -/
+/- module 171 = zlib: 0=Compress 4=Decompress 6=ZLIB_RUNTIME_VERSION 7=ZLIB_VERSION 34=adler32 35=compress 36=compressobj 37=crc32 38=decompress 39=decompressobj 40=error -/
 /- module 172 = zoneinfo: 0=InvalidTZPathWarning 1=TZPATH 2=ZoneInfo 3=ZoneInfoNotFoundError 18=available_timezones 19=reset_tzpath -/
 /-- `(module id, ids of declared Python names, bitset of known attribute ids)` -/
 def modules : List (Nat × List Nat × Nat) := [
@@ -184,12 +184,12 @@ def modules : List (Nat × List Nat × Nat) := [
   (1, [0, 1, 21, 22, 24], 0x7ffffff),
   (2, [3, 33], 0xfffffffffffffff),
   (3, [13, 14], 0x7fff),
-  (4, [0, 1, 2, 3, 4, 5, 6, 7, 8, 9, 10, 14, 15, 16, 17, 18, 19, 21, 22, 23, 24, 25, 26, 27, 28, 29, 30, 32, 33, 37, 38, 39, 40, 42, 43, 44, 45, 46, 47, 48, 49, 50, 55, 56, 57, 58, 59, 60, 61, 62, 63, 64, 65, 66, 67, 68, 69, 70, 71, 72, 73, 74, 75, 76, 77, 78, 79, 81, 82, 83, 84, 85, 86, 87, 89, 91, 92, 93, 94, 95, 96, 97, 98, 99, 100, 101, 102, 103, 104, 105, 107, 108, 111, 112, 113, 114, 115, 116, 117, 118, 119, 120, 121, 122, 165, 166, 167, 169, 170, 172, 175, 177, 178, 180, 185, 186, 188, 191, 192, 193, 196, 199, 200, 201, 203], 0xfffffffffffffffffffffffffffffffffffffffffffffffffff),
-  (5, [2, 3, 4, 6, 25, 29, 34, 37, 38, 39, 42, 47, 53, 58, 100, 110, 116, 117, 129, 137, 151], 0x1ffffffffffffffffffffffffffffffffffffffff),
+  (4, [0, 1, 2, 3, 4, 5, 6, 7, 8, 9, 10, 14, 15, 16, 17, 18, 19, 21, 22, 23, 24, 25, 26, 27, 28, 29, 30, 32, 33, 37, 38, 39, 40, 42, 43, 44, 45, 46, 47, 48, 49, 50, 54, 55, 56, 57, 58, 59, 60, 61, 62, 63, 64, 65, 66, 67, 68, 69, 70, 71, 72, 73, 74, 75, 76, 77, 78, 80, 81, 82, 83, 84, 85, 86, 88, 90, 91, 92, 93, 94, 95, 96, 97, 98, 99, 100, 101, 102, 103, 104, 106, 107, 109, 110, 111, 112, 113, 114, 115, 116, 117, 118, 119, 120, 163, 164, 165, 167, 168, 169, 172, 174, 175, 177, 182, 183, 185, 188, 189, 190, 193, 196, 197, 198, 200], 0x1ffffffffffffffffffffffffffffffffffffffffffffffffff),
+  (5, [2, 3, 4, 6, 23, 27, 32, 35, 36, 37, 40, 45, 51, 56, 94, 101, 107, 108, 119, 127, 141], 0x7fffffffffffffffffffffffffffffffffffff),
   (6, [0, 2], 0x7fffffffffffffff),
   (7, [26, 27], 0x3ffffffff),
-  (8, [0, 1, 2, 4, 6], 0xffffffffffffffff),
-  (9, [1, 36], 0xffffffffff),
+  (8, [0, 1, 2, 4, 6], 0x1fffffffffffffff),
+  (9, [1, 34], 0x3fffffffff),
   (10, [1, 2, 3, 4, 5], 0x7fffff),
   (11, [0, 20], 0x1ffffff),
   (12, [4, 82, 89, 96], 0x7fffffffffffffffffffffffff),
@@ -197,11 +197,11 @@ def modules : List (Nat × List Nat × Nat) := [
   (14, [10, 11], 0xfff),
   (15, [39, 40, 41, 42, 45, 46], 0x7ffffffffffffffff),
   (16, [0, 2, 26], 0x1fffffff),
-  (17, [26, 37, 40], 0x1ffffffffff),
+  (17, [13, 21, 24], 0x1ffffff),
   (18, [8, 9, 10], 0x3fff),
-  (19, [136, 138, 140, 141, 155, 183, 192, 195, 203], 0x7fffffffffffffffffffffffffffffffffffffffffffffffffffff),
+  (19, [134, 136, 138, 139, 153, 180, 189, 192, 199], 0x7ffffffffffffffffffffffffffffffffffffffffffffffffffff),
   (20, [2, 29], 0xffffffff),
-  (21, [2, 9, 17, 18, 30, 54, 68], 0x1ffffffffffffffffffffff),
+  (21, [2, 9, 17, 18, 30, 54, 68], 0x7fffffffffffffffffffff),
   (22, [], 0x3fffffffff),
   (23, [0], 0x7fff),
   (24, [14], 0x3ffff),
@@ -211,17 +211,17 @@ def modules : List (Nat × List Nat × Nat) := [
   (28, [1, 2, 3, 4, 5, 6, 7, 8, 9, 10, 11, 12, 15, 17, 18, 19, 20, 21, 22, 23, 24, 25, 26, 27, 28, 29, 30, 31], 0x1ffffffffffffff7fd),
   (29, [], 0x7ffff),
   (30, [13, 14, 15], 0xffffff),
-  (31, [1], 0xfffffffffffffff),
+  (31, [1], 0x3ffffffffffffff),
   (32, [5, 48, 49], 0x3ffffffffffffff),
   (33, [0, 24, 25], 0x1fffffff),
   (34, [0, 1, 2, 5, 6, 7, 8, 9, 10, 11, 25, 31, 34, 36], 0x1fffffffff),
-  (35, [0, 1, 2, 5, 19, 22, 27, 30, 34, 37, 55, 57, 88, 89, 90, 91, 93, 94, 95, 96, 98, 100, 101, 102, 103, 104, 105, 106, 108, 109, 110, 111, 112, 113, 114, 115, 116, 117, 118, 119, 120, 121, 122, 124, 125, 126, 128, 129, 130, 131, 133, 135, 141, 142, 143, 144, 145, 149], 0x3fffffffffffffffffffffffffffffffffffff),
+  (35, [0, 1, 2, 5, 16, 19, 24, 27, 31, 34, 52, 54, 85, 86, 87, 88, 90, 91, 92, 93, 94, 95, 96, 97, 98, 99, 100, 101, 102, 103, 104, 105, 106, 107, 108, 109, 110, 111, 112, 113, 114, 115, 116, 118, 119, 120, 122, 123, 124, 125, 127, 128, 134, 135, 136, 137, 138, 142], 0x7fffffffffffffffffffffffffffffffffff),
   (36, [], 0x1fff),
-  (37, [14], 0x7fffff),
-  (38, [], 0xffffffffffffffffffffffffffffffffffffffff),
+  (37, [13], 0x3fffff),
+  (38, [], 0xffffffffffffffffffffffffffffffffffffff),
   (39, [0, 5, 6, 22, 23, 76, 77, 81], 0x3ffffffffffffffffffffff),
   (40, [0, 1, 2, 16, 17, 20, 21, 22, 23], 0xffffff),
-  (41, [0, 2, 4, 7, 11, 52, 53, 54], 0x7fffffffffffff),
+  (41, [0, 2, 4, 7, 11, 49, 50, 51], 0xfffffffffffff),
   (42, [0, 2, 3, 4, 6, 31, 32, 33, 34, 35, 36], 0x1fffffffff),
   (43, [2, 16, 25, 86, 87, 90, 92, 98, 99, 100, 101, 102, 105, 106, 107, 113, 114, 117], 0x7ffffffffffffffffffffffffffffff),
   (44, [33, 84, 85], 0x1ffffffffffffffffffffff),
@@ -234,18 +234,18 @@ def modules : List (Nat × List Nat × Nat) := [
   (51, [1, 2, 4, 5], 0x3ffff),
   (52, [2, 3, 6, 7, 20, 24], 0x3ffffff),
   (53, [4, 8, 9, 11, 12, 17, 19, 60], 0x1fffffffffffffffffff),
-  (54, [0, 1, 2, 3, 4, 5, 6, 7, 10, 12, 13, 15, 16, 18, 19, 20, 21, 22, 23, 24, 25, 26, 27, 28, 29, 30, 31, 33, 34, 35, 36, 37, 38, 40, 41, 43, 44, 45, 46, 47, 48, 49, 50, 51, 55, 56, 57, 58, 59, 60, 61, 62, 63, 64, 66, 68, 69, 70, 71, 72, 73, 75, 76, 77, 78, 79, 81, 82, 83, 84, 85, 86, 88, 89, 91, 92, 93, 94, 96, 97, 98, 99, 100, 102, 103, 104, 105, 106, 107, 108, 109, 110, 111, 112, 113, 114, 115, 116, 117, 118, 119, 124, 125, 126, 128, 129, 130, 131, 132, 133, 135, 138, 139, 140, 141, 142, 143, 144, 145, 146, 147, 148, 149, 150, 151, 152, 153, 154, 208], 0x1ffffffffffffffffffffffffffffffffffffffffffffffffffff),
+  (54, [0, 1, 2, 3, 4, 5, 6, 7, 10, 12, 13, 15, 16, 18, 19, 20, 21, 22, 23, 24, 25, 26, 27, 28, 29, 30, 31, 33, 34, 35, 36, 37, 38, 40, 41, 42, 43, 44, 45, 46, 47, 48, 49, 50, 54, 55, 56, 57, 58, 59, 60, 61, 62, 63, 65, 67, 68, 69, 70, 71, 72, 74, 75, 76, 77, 78, 80, 81, 82, 83, 84, 85, 87, 88, 90, 91, 92, 93, 95, 96, 97, 98, 99, 101, 102, 103, 104, 105, 106, 107, 108, 109, 110, 111, 112, 113, 114, 115, 116, 117, 118, 123, 124, 125, 127, 128, 129, 130, 131, 132, 134, 137, 138, 139, 140, 141, 142, 143, 144, 145, 146, 147, 148, 149, 150, 151, 152, 153, 207], 0xffffffffffffffffffffffffffffffffffffffffffffffffffff),
   (55, [17, 18, 19, 21], 0x1ffffff),
   (56, [0, 15, 16, 17, 18, 19, 20, 21, 23, 24, 25, 26], 0x1fffffff),
-  (57, [13, 15, 16, 21], 0x3fffff),
+  (57, [13, 14, 15, 20], 0x1fffff),
   (58, [1], 0x1fffffff),
   (59, [3, 5, 21, 22, 23, 24, 25], 0xfffffffff),
-  (60, [53, 54, 55, 57, 59, 60, 62, 63, 64, 65, 66, 67], 0xfffffffffffffffff),
+  (60, [51, 52, 53, 55, 57, 58, 60, 61, 62, 63, 64, 65], 0x3ffffffffffffffff),
   (61, [17, 29, 32, 36], 0x3fffffffffff),
   (62, [0, 2], 0xffff),
   (63, [0, 6, 37, 38, 41], 0xffffffffffff),
   (64, [0, 1, 18, 19, 20, 22, 23, 24, 27, 28, 29, 30, 31, 32, 33, 34, 35, 36, 37], 0x3ffffffffc),
-  (65, [18, 20, 22, 24], 0x7fffffff),
+  (65, [18, 19, 20, 21], 0x3ffffff),
   (66, [0, 15, 16, 18], 0x1fffff),
   (67, [16, 17, 18, 19], 0xfffff),
   (68, [9, 10, 11, 12], 0x1fff),
@@ -254,14 +254,14 @@ def modules : List (Nat × List Nat × Nat) := [
   (71, [4, 9, 10, 18, 19, 20, 21, 22, 23, 24, 30, 31, 32, 36, 51, 67, 68, 83, 84, 85, 119, 123], 0xffffffffffffffffffffffffffffffff),
   (72, [1, 2, 3, 6, 9, 22], 0x1fffffffffffffffffffff),
   (73, [0, 1, 2, 3], 0xfffffffff),
-  (74, [0, 1, 5, 7, 9], 0x3fffffffffff),
+  (74, [0, 1, 4, 6, 7], 0x7ffffffffff),
   (75, [6, 22, 24, 27, 32], 0x3ffffffff),
-  (76, [8], 0x7ffffff),
-  (77, [6, 7, 8, 9, 10, 15, 22, 23, 24, 26, 27, 28, 68, 69, 71, 72, 79, 83, 88, 95], 0x3ffffffffffffffffffffffff),
+  (76, [8], 0x3ffffff),
+  (77, [6, 7, 8, 9, 10, 15, 21, 22, 23, 25, 26, 27, 67, 68, 70, 71, 78, 82, 87, 94], 0x1ffffffffffffffffffffffff),
   (78, [9, 10], 0xfff),
-  (79, [2, 25], 0x7fffffffff),
-  (80, [30, 37, 38, 40, 125, 146, 149, 150, 157, 159, 168, 169, 170, 171, 172, 173, 174, 175, 176, 177, 178, 179, 180, 181, 182, 184, 185, 186, 187, 188, 190, 191, 202], 0x1fffffffffffffffffffffffffffffffffffffffffffffffffffff),
-  (81, [0, 1, 2, 3, 4, 5, 6, 7, 8, 9, 12, 17, 18, 19, 20, 38, 39, 40], 0x1ffffffffff),
+  (79, [2, 24], 0x3fffffffff),
+  (80, [28, 35, 36, 38, 123, 144, 147, 148, 155, 157, 166, 167, 168, 169, 170, 171, 172, 173, 174, 175, 176, 177, 178, 179, 180, 182, 183, 184, 185, 186, 187, 188, 199], 0x3ffffffffffffffffffffffffffffffffffffffffffffffffffff),
+  (81, [0, 1, 2, 3, 4, 5, 6, 7, 8, 9, 12, 16, 17, 18, 19, 36, 37, 38], 0x7fffffffff),
   (82, [0, 3, 4, 5, 6, 7, 8, 9, 11, 13, 14, 15, 16, 36, 39, 42, 43, 44], 0x1fffffffffff),
   (83, [25, 27, 28, 29, 30, 31, 32, 33, 34, 35, 36, 37, 38, 39, 40, 42, 43, 44], 0x1fffffffffff),
   (84, [0, 1, 2, 20, 21, 23, 24], 0x7ffffff),
@@ -272,43 +272,43 @@ def modules : List (Nat × List Nat × Nat) := [
   (89, [0, 1, 2, 3, 4, 5, 6, 7, 8, 9, 10, 11, 12, 13, 17, 18, 19, 20, 21, 22], 0x1fffffffffff),
   (90, [0, 1, 2, 3, 4, 5, 6, 7, 8, 9, 10, 11, 12, 13, 14, 15, 16, 17, 18, 19, 20, 21, 22, 23, 24, 25, 26, 27, 28, 29, 30, 31, 51, 52, 54, 55], 0x1ffffffffffffff),
   (91, [6, 7, 8, 9, 10], 0x7ff),
-  (92, [19, 20, 21, 22, 23, 25, 27, 28, 29, 30, 31, 34, 37, 40, 41, 42, 46, 47, 48, 54, 55, 56, 57, 59, 64, 65, 67, 71, 72, 74, 78, 79, 80, 82, 83, 84, 85], 0x7fffffffffffffffffffff),
-  (93, [18, 20, 21, 22, 26, 27, 28, 29, 32, 33, 34, 35, 36, 38, 39, 41, 42, 44, 45, 46, 47, 51, 52, 53, 54, 57, 58, 59, 62], 0xffffffffffffffff),
+  (92, [19, 20, 21, 22, 23, 25, 27, 28, 29, 30, 31, 34, 37, 40, 41, 42, 44, 45, 46, 52, 53, 54, 55, 56, 60, 61, 63, 67, 68, 70, 73, 74, 75, 77, 78, 79, 80], 0x3ffffffffffffffffffff),
+  (93, [17, 19, 20, 21, 25, 26, 27, 28, 31, 32, 33, 34, 35, 37, 38, 40, 41, 43, 44, 45, 46, 50, 51, 52, 53, 56, 57, 58, 61], 0x7fffffffffffffff),
   (94, [1, 2, 3, 4, 5], 0x7ffff),
-  (95, [5, 6, 8, 11, 16, 19, 21, 30, 32, 39, 41, 42, 44, 45, 47, 48, 49, 50, 52, 53, 54, 57, 58, 59, 61, 63, 64, 65, 70, 72, 74, 83, 85, 86, 90, 92, 95, 98, 100, 101, 104, 105, 106, 107, 108, 109, 110, 111, 112, 114, 115, 116, 117], 0x3fffffffffffffffffffffffffffff),
-  (96, [24, 25, 26, 27, 28, 29, 30, 31, 32, 33, 34, 35, 36, 37, 38, 39, 40, 41, 42, 43, 44, 45, 47, 48, 49, 53, 54, 55, 56, 57, 58, 59, 60, 61, 62, 63, 64, 65, 66, 67, 68, 69, 74, 76, 77, 78, 79, 80, 81, 82, 83, 84, 85, 87, 88, 90, 91, 92, 93, 94, 95, 96, 97, 98, 99, 100, 101, 103, 104, 105, 106, 107, 108, 109, 110, 111, 112, 114, 115, 116, 117, 118, 119, 124, 125, 126, 127, 128, 129, 130, 140, 148, 149, 150, 151, 152, 163, 164, 165, 166, 167, 168, 169, 170, 171, 222, 223, 224, 250, 264, 265, 266, 268, 269, 270, 271, 272, 273, 274, 277, 279, 280, 282, 284, 285, 286, 287, 289, 290, 291, 292, 293, 294, 295, 296, 297, 298, 299, 301, 302, 303, 304, 305, 306, 307, 308, 309, 310, 311, 312, 313, 314, 315, 316, 317, 318, 319, 320, 321, 322, 323, 324, 325, 326, 327, 328, 329, 330, 332, 333, 334, 335, 336, 337, 338, 339, 340, 341, 342, 343, 345, 346, 347, 348, 350, 351, 353, 354, 355, 356, 357, 358, 359, 360, 361, 362, 363, 364, 365, 366, 367, 368, 369, 370, 371, 372, 373, 374, 376, 377, 380, 381, 382, 383, 384, 385, 386, 388, 389, 390, 391, 394, 395, 396, 397, 399, 400, 401, 403, 404, 405, 406, 407, 408, 409, 410, 422, 424, 425, 426, 427, 428, 429, 430, 431, 432, 433, 434, 435, 436, 437, 438, 439, 440, 441, 442, 443, 444, 445, 446, 447, 448, 449, 450, 452, 454, 455, 459, 460, 461, 462, 463, 464, 465, 466, 470, 471, 472, 479, 482, 483, 484, 486, 488, 489, 490, 491, 492, 495, 499, 500, 501], 0x3ffffffffffffffffffffffffffffffffffffffffffffffffffffffffffffffffffffffffffffffffffffffffffffffffffffffffffbffffffffffffffffff),
-  (97, [16, 18, 19, 20, 24, 25, 26, 27, 30, 31, 32, 33, 34, 35, 36, 37, 38, 39, 40, 42, 43, 44, 45, 49, 50, 51, 52, 53, 54, 55, 56, 57, 58, 60], 0x3fffffffffffffff),
+  (95, [5, 6, 8, 11, 16, 19, 21, 30, 32, 39, 41, 42, 44, 45, 47, 48, 49, 50, 52, 53, 54, 57, 58, 59, 61, 63, 64, 65, 70, 72, 74, 83, 85, 86, 90, 91, 93, 96, 98, 99, 102, 103, 104, 105, 106, 107, 108, 109, 110, 112, 113, 114, 115], 0xfffffffffffffffffffffffffffff),
+  (96, [20, 21, 22, 23, 24, 25, 26, 27, 28, 29, 30, 31, 32, 33, 34, 35, 36, 37, 38, 39, 40, 41, 43, 44, 45, 49, 50, 51, 52, 53, 54, 55, 56, 57, 58, 59, 60, 61, 62, 63, 64, 65, 69, 71, 72, 73, 74, 75, 76, 77, 78, 79, 80, 82, 83, 85, 86, 87, 88, 89, 90, 91, 92, 93, 94, 95, 96, 98, 99, 100, 101, 102, 103, 104, 105, 106, 107, 109, 110, 111, 112, 113, 114, 119, 120, 121, 122, 123, 124, 125, 135, 143, 144, 145, 146, 147, 156, 157, 158, 159, 160, 161, 162, 163, 164, 199, 200, 201, 226, 240, 241, 242, 244, 245, 246, 247, 248, 249, 250, 253, 255, 256, 258, 260, 261, 262, 263, 265, 266, 267, 268, 269, 270, 271, 272, 273, 274, 275, 277, 278, 279, 280, 281, 282, 283, 284, 285, 286, 287, 288, 289, 290, 291, 292, 293, 294, 295, 296, 297, 298, 299, 300, 301, 302, 303, 304, 305, 306, 308, 309, 310, 311, 312, 313, 314, 315, 316, 317, 318, 319, 321, 322, 323, 324, 326, 327, 329, 330, 331, 332, 333, 334, 335, 336, 337, 338, 339, 340, 341, 342, 343, 344, 345, 346, 347, 348, 349, 350, 352, 353, 356, 357, 358, 359, 360, 361, 362, 364, 365, 366, 367, 370, 371, 372, 373, 374, 375, 376, 377, 378, 379, 380, 381, 382, 383, 384, 396, 398, 399, 400, 401, 402, 403, 404, 405, 406, 407, 408, 409, 410, 411, 412, 413, 414, 415, 416, 417, 418, 419, 420, 421, 422, 423, 424, 426, 428, 429, 431, 432, 433, 434, 435, 436, 437, 438, 442, 443, 444, 451, 454, 455, 456, 458, 460, 461, 462, 463, 464, 467, 471, 472, 473], 0x3ffffffffffffffffffffffffffffffffffffffffffffffffffffffffffffffffffffffffffffffffffffffffffffffffffffdfffffffffffffffff),
+  (97, [15, 17, 18, 19, 23, 24, 25, 26, 29, 30, 31, 32, 33, 34, 35, 36, 37, 38, 39, 41, 42, 43, 44, 48, 49, 50, 51, 52, 53, 54, 55, 56, 57, 59], 0x1fffffffffffffff),
   (98, [5, 6, 7, 8, 9, 19], 0xffffffffffffffffffff),
-  (99, [2, 47, 51, 52, 54, 56], 0x3ffffffffffffffff),
+  (99, [2, 46, 50, 51, 53, 54], 0x7fffffffffffffff),
   (100, [0, 1, 2, 3, 4, 5, 6, 7, 8, 9, 10, 11, 12, 13, 14, 15, 16, 17, 18, 19, 20, 21, 22, 23, 24, 25, 26, 27, 28, 29, 30, 32, 33, 34, 35, 36, 37, 38, 39, 40, 41, 42, 43, 44, 45, 46, 47, 48, 49, 50, 51, 52, 53, 54, 55, 56, 58, 60, 62, 63, 64, 65, 66, 67, 68, 69, 70, 71, 72, 73, 74, 75, 76, 77, 79, 107, 109, 112, 113, 115, 118, 119], 0x7fffffffffffffffffffffffffffffff),
-  (101, [59, 68, 70, 71, 72, 74, 76, 77, 78, 79, 80, 81, 82, 83, 85, 88, 89, 90, 92, 94, 95, 96], 0x1ffffffffffffffffffffffff),
-  (102, [381], 0x1fffffffffffffffffffffffffffffffffffffffffffffffffffffffffffffffffffffffffffffffffffffffffffffffffff),
-  (103, [16, 18, 19, 20, 24, 25, 26, 27, 30, 31, 32, 33, 34, 36, 37, 39, 40, 41, 42, 43, 44, 48, 49, 50, 51, 54, 55, 56, 59], 0x1fffffffffffffff),
+  (101, [59, 67, 69, 70, 71, 73, 75, 76, 77, 78, 79, 80, 81, 82, 84, 87, 88, 89, 91, 93, 94, 95], 0xffffffffffffffffffffffff),
+  (102, [354], 0x3ffffffffffffffffffffffffffffffffffffffffffffffffffffffffffffffffffffffffffffffffffffffffffff),
+  (103, [15, 17, 18, 19, 23, 24, 25, 26, 29, 30, 31, 32, 33, 35, 36, 38, 39, 40, 41, 42, 43, 47, 48, 49, 50, 53, 54, 55, 58], 0xfffffffffffffff),
   (104, [0, 22, 23, 24, 25, 26, 28], 0x1fffffff),
   (105, [0, 12], 0x7ffff),
   (106, [], 0xffffffffffffffffffffffffff),
   (107, [0, 1, 2, 3, 4, 5, 6], 0xffffff),
   (108, [4, 6, 51, 53, 54, 55, 56, 57, 58, 59, 60, 62, 63, 64, 65, 66, 67, 68, 69, 70, 71, 72, 73, 74, 75], 0xfffffffffffffffffff),
-  (109, [0, 1, 2, 3, 4, 5, 6, 7, 8, 9, 10, 11, 12, 14, 15, 21, 22, 55, 59, 60, 61, 62, 64, 66, 67, 68, 71, 72], 0x3ffffffffffffffffff),
+  (109, [0, 1, 2, 3, 4, 5, 6, 7, 8, 9, 10, 11, 12, 14, 15, 21, 22, 55, 59, 60, 61, 62, 64, 65, 66, 67, 70, 71], 0x1ffffffffffffffffff),
   (110, [], 0x7fffff),
   (111, [14, 16, 18, 19], 0x1fffff),
   (112, [21, 62, 64, 65, 66, 67, 68, 69, 70, 71, 74, 75, 76, 79, 80, 81, 85, 86, 87, 90, 91, 92, 94], 0x7fffffffffffffffffffffff),
   (113, [0, 1, 2, 3, 4, 5, 7, 9, 10, 11, 12, 13, 14, 16, 17, 18, 20, 23, 24, 31, 32, 35, 41, 42, 44, 47, 48, 49, 50, 51, 52, 53, 68, 71, 72, 80, 85], 0xffffffffffffffffffffff),
-  (114, [0, 1, 2, 3, 4, 5, 6, 7, 8, 9, 11, 13, 14, 15, 16, 17, 19, 20, 21, 22, 23, 24, 25, 26, 27, 28, 29, 30, 32, 33, 34, 35, 36, 37, 58, 453, 455, 456, 457, 458, 459, 463, 465, 467, 471, 475, 476, 477, 478, 480, 481, 483, 488, 489, 490, 491, 493, 494, 495, 496, 497, 498, 499, 500, 501, 503, 504, 505, 506, 507, 508, 509, 510, 511, 512, 513, 515, 516, 517, 518, 520, 521, 522, 525, 618, 619, 620, 625, 628, 631, 632, 633, 634, 635, 639, 660, 661], 0xffffffffffffffffffffffffffffffffffffffffffffffffffffffffffffffffffffffffffffffffffffffffffffffffffffffffffffffffffffffffffffffffffffffffffffffffffffffffffffffffffffff),
+  (114, [0, 1, 2, 3, 4, 5, 6, 7, 8, 9, 11, 13, 14, 15, 16, 17, 19, 20, 21, 22, 23, 24, 25, 26, 27, 28, 29, 30, 32, 33, 34, 35, 36, 37, 58, 357, 359, 360, 361, 362, 363, 366, 367, 369, 372, 374, 375, 376, 377, 379, 380, 382, 383, 384, 385, 386, 388, 389, 390, 391, 392, 393, 394, 395, 396, 397, 398, 399, 400, 401, 402, 403, 404, 405, 406, 407, 409, 410, 411, 412, 414, 415, 416, 419, 511, 512, 513, 518, 521, 524, 525, 526, 527, 528, 532, 553, 554], 0x1fffffffffffffffffffffffffffffffffffffffffffffffffffffffffffffffffffffffffffffffffffffffffffffffffffffffffffffffffffffffffffffffffffffffffff),
   (115, [0, 1, 3, 4, 5, 6, 9, 10, 11, 12, 13, 16, 17, 18], 0x7ffffffffff),
-  (116, [1, 3, 4, 21, 235, 236], 0xfffffffffffffffffffffffffffffffffffffffffffffffffffffffffffffff),
-  (117, [51, 52, 85, 86, 87, 88, 92, 93, 94, 95, 99, 100, 101, 102, 103, 169], 0x1ffffffffffffffffffffffffffffffffffffffffffffff),
-  (118, [0, 1, 2, 3, 4, 5, 6, 7, 8, 9, 10, 11, 12, 13, 14, 15, 16, 20, 21, 24, 25, 28, 41, 42, 43, 44, 45, 46, 47, 48, 49, 50, 51, 52, 53, 54, 55, 56, 57, 58, 59, 60, 61, 62, 63, 64, 65, 66, 67, 68, 69, 70, 71, 72, 73, 74, 75, 76, 77, 78, 79, 80, 81, 82, 83, 84, 85, 86, 87, 88, 89, 90, 91, 92, 93, 95, 96, 97, 98, 99, 111], 0xffffffffffffffffffffffffffff),
+  (116, [1, 3, 4, 21, 234, 235], 0x7ffffffffffffffffffffffffffffffffffffffffffffffffffffffffffffff),
+  (117, [49, 50, 83, 84, 85, 86, 90, 91, 92, 93, 97, 98, 99, 100, 101, 167], 0x3fffffffffffffffffffffffffffffffffffffffffffff),
+  (118, [0, 1, 2, 3, 4, 5, 6, 7, 8, 9, 10, 11, 12, 13, 14, 15, 16, 20, 21, 24, 25, 28, 31, 32, 33, 34, 35, 36, 37, 38, 39, 40, 41, 42, 43, 44, 45, 46, 47, 48, 49, 50, 51, 52, 53, 54, 55, 56, 57, 58, 59, 60, 61, 62, 63, 64, 65, 66, 67, 68, 69, 70, 71, 72, 73, 74, 75, 76, 77, 78, 79, 80, 81, 82, 83, 85, 86, 87, 88, 89, 101], 0x3fffffffffffffffffffffffff),
   (119, [55, 59, 64, 66, 68, 75, 78, 79, 80, 81, 82, 83, 85, 89, 90, 91, 97, 102], 0x7fffffffffffffffffffffffff),
   (120, [0, 1, 16, 17, 18, 19, 20, 21, 22, 23, 24, 26], 0x7ffffff),
   (121, [0, 11, 12, 13, 14, 15, 16, 17], 0x3ffff),
   (122, [7, 8, 10, 14, 15, 22, 27, 28, 66, 67, 68, 80], 0x1ffffffffffffffffffffff),
   (123, [1, 10, 17, 18, 20, 37], 0x7fffffffff),
-  (124, [22, 23, 24, 30, 32, 60, 62, 63, 64, 65, 66, 67, 68, 69, 70, 73, 75, 76, 77, 78, 80, 81, 82, 83, 84, 85, 86, 96, 101, 102, 103, 104, 109, 110, 111, 112, 113, 114, 122, 123, 124, 125, 128, 131, 132, 133, 134, 135, 136, 147, 150, 151, 152, 153, 157, 158], 0x1ffffffffffffffffffffffffffffffffffffffff),
+  (124, [21, 22, 23, 29, 31, 56, 58, 59, 60, 61, 62, 63, 64, 65, 66, 69, 71, 72, 73, 74, 76, 77, 78, 79, 80, 81, 82, 90, 95, 96, 97, 98, 103, 104, 105, 106, 107, 108, 114, 115, 116, 117, 120, 123, 124, 125, 126, 127, 128, 136, 139, 140, 141, 142, 146, 147], 0x3fffffffffffffffffffffffffffffffffffff),
   (125, [49, 90, 95], 0x1fffffffffffffffffffffffffff),
   (126, [0, 3, 4, 10, 46, 47, 48, 49, 50, 51, 53], 0x7fffffffffffff),
   (127, [0, 13, 14, 15, 17, 18], 0x7ffff),
-  (128, [0, 1, 2, 3, 4, 6, 7, 8, 10, 12, 71, 82], 0xfffffffffffffffffffffff),
+  (128, [0, 1, 2, 3, 4, 6, 7, 8, 10, 12, 71, 81], 0x1ffffffffffffffffffffff),
   (129, [0, 2, 3, 5, 6, 7, 22, 23, 24, 25, 26, 27, 28, 29, 30, 31, 33, 34, 35, 36, 37, 38, 39, 40, 41, 43, 44, 45, 46, 47, 48, 49, 50, 51, 52, 53], 0x3fffffffffffff),
   (130, [25], 0x3ffffff),
   (131, [11, 13, 22, 23, 32, 38, 49, 50, 51, 55, 56, 57, 72, 77, 78, 98, 99, 100, 107, 108, 110, 118], 0xffffffffffffffffffffffffffffffffffffffffffffffffff),
@@ -321,15 +321,15 @@ def modules : List (Nat × List Nat × Nat) := [
   (138, [1], 0x7fffff),
   (139, [28, 29, 30, 31, 33, 34, 35], 0xfffffffff),
   (140, [8], 0x1fffff),
-  (141, [101, 145, 146, 147], 0xffffffffffffffffffffffffffffffffffffffffff),
+  (141, [101, 144, 145, 146], 0x7fffffffffffffffffffffffffffffffffffffffff),
   (142, [1, 2, 10, 14, 15, 18, 19, 21, 22], 0x7fffffffffffffffffff),
   (143, [14, 15], 0xffff),
   (144, [0, 2], 0x1fffffffff),
   (145, [4, 58], 0x1ffffffffffffffff),
   (146, [254, 255], 0xffffffffffffffffffffffffffffffffffffffffffffffffffffffffffffffffff),
-  (147, [0, 1, 2, 4, 5, 6, 7, 9, 11, 12, 13, 14, 16, 18, 20, 21, 22, 23, 24, 25, 27, 28, 29], 0xfffffffffffffff),
-  (148, [1, 2, 3, 4, 5, 6, 7, 8, 9, 11, 12, 14, 15, 16, 17, 18, 19, 20, 21, 22, 23, 24, 25, 27, 28, 29, 30, 31, 33, 34, 35, 36, 37, 39, 40, 41, 42, 43, 44, 45, 48, 49, 50, 51, 53, 54, 55, 57, 58, 59, 60, 61, 62, 63, 64, 65, 66, 67, 68, 69, 70, 71, 72, 73, 74, 75, 76, 77, 78, 79, 81, 84, 85, 86, 87, 88, 89, 91, 92, 93, 94, 95, 96, 97, 101, 144, 241, 242, 243, 244, 252, 254, 255, 256, 257, 258, 260, 261, 262, 263, 265, 266, 268, 269, 272], 0x7ffffffffffffffffffffffffffffffffffffffffffffffffffffffffffffffffffff),
-  (149, [0, 11, 13, 14, 15, 16, 17, 18, 22, 26, 27, 28, 29, 30, 31, 33], 0x3ffffffff),
+  (147, [0, 1, 2, 4, 5, 6, 7, 9, 10, 11, 12, 13, 15, 16, 18, 19, 20, 21, 22, 23, 25, 26, 27], 0x3ffffffffffffff),
+  (148, [1, 2, 3, 4, 5, 6, 7, 8, 9, 11, 12, 14, 15, 16, 17, 18, 19, 20, 21, 22, 23, 24, 25, 27, 28, 29, 30, 31, 33, 34, 35, 36, 37, 39, 40, 41, 42, 43, 44, 45, 48, 49, 50, 51, 53, 54, 55, 56, 57, 58, 59, 60, 61, 62, 63, 64, 65, 66, 67, 68, 69, 70, 71, 72, 73, 74, 75, 76, 77, 78, 80, 83, 84, 85, 86, 87, 88, 89, 90, 91, 92, 93, 94, 95, 99, 141, 238, 239, 240, 241, 247, 249, 250, 251, 252, 253, 255, 256, 257, 258, 260, 261, 263, 264, 267], 0x3fffffffffffffffffffffffffffffffffffffffffffffffffffffffffffffffffff),
+  (149, [0, 11, 12, 13, 14, 15, 16, 17, 18, 19, 20, 21, 22, 23, 24, 26], 0x7ffffff),
   (150, [0, 3, 4, 5, 6, 7, 8, 9, 10, 28, 29, 33, 34, 35, 37, 38, 39, 41, 43, 44, 45, 46, 50], 0xfffffffffffff),
   (151, [0, 2, 3, 47], 0x1ffffffffffffffff),
   (152, [0, 1, 21, 22, 23, 27, 28, 31], 0x1fffffffff),
@@ -346,16 +346,16 @@ def modules : List (Nat × List Nat × Nat) := [
   (163, [0, 1, 3, 4, 6, 7, 9, 10, 11, 12, 13, 15, 16, 17, 18, 19, 20, 21, 23, 24, 25, 26, 27, 30, 72, 82, 119], 0x1fffffffffffffffffffffffffffffff),
   (164, [9, 10, 11, 12, 13], 0x3fff),
   (165, [0, 2], 0x7fff),
-  (166, [2, 3, 4, 5, 7, 8, 9, 10, 11, 12, 58, 64, 65, 66, 67], 0x7fffffffffffffffff),
+  (166, [1, 2, 3, 4, 5, 6, 7, 8, 9, 10, 56, 62, 63, 64, 65], 0x3ffffffffffffffff),
   (167, [1, 11], 0x1fffff),
   (168, [35, 39, 40, 42, 43, 44, 46, 47], 0xffffffffffff),
   (169, [4], 0x7ffffffff),
-  (170, [24, 136], 0x1fffffffffffffffffffffffffffffffffffffffff),
-  (171, [0, 4, 7, 8, 35, 37, 38, 39, 41, 42, 43], 0xfffffffffee),
+  (170, [22, 134], 0x7ffffffffffffffffffffffffffffffffffffffff),
+  (171, [0, 4, 6, 7, 34, 35, 36, 37, 38, 39, 40], 0x1ffffffffee),
   (172, [0, 1, 2, 3, 18, 19], 0xfffff)]
 
 /-- recorded finding K (known_findings.json, id C27-undeclared-attrs): `(module id, name id)` of declarations that name no
     attribute, kept unfixed: collections.abc.ContextManager, collections.abc.AsyncContextManager, hashlib.HASH, hashlib.HASHXOF, os.OSError, zlib.Compress, zlib.Decompress -/
-def kfind : List (Nat × Nat) := [(28, 1), (28, 11), (64, 0), (64, 1), (96, 74), (171, 0), (171, 4)]
+def kfind : List (Nat × Nat) := [(28, 1), (28, 11), (64, 0), (64, 1), (96, 69), (171, 0), (171, 4)]
 
 end ErgVerif.Gen.C27
